@@ -1,6 +1,2582 @@
-//! C02 — monitor not built yet.
-use crate::core::Ctx;
+//! C02 — signature soundness: only the signed content, under the exact hashed metadata and the
+//! signer's key, verifies.
+//!
+//! Method: objects that verify are built with the library's own signing APIs; ONE perturbation
+//! is applied to a serialised artefact (content, signature packet, key packet, user id, one-pass
+//! packet, whole message, whole certificate); the artefact is re-parsed and EVERY applicable
+//! verification entry point must return `Err` (a parse failure is the required error too).
+//! Each perturbed bit is classified with the independent reference parsers (`rfc::sig`,
+//! `rfc::key`, `rfc::frame`, `rfc::armor`): only SEMANTIC regions are required to fail
+//! (`Req::Must`), non-semantic ones (unhashed area, framing, MPI bit-count prefixes, advisory
+//! one-pass issuer, ...) are exercised for no-panic only (`Req::Either`).
+
+use std::io::Read;
+
+use bytes::Bytes;
+use pgp::composed::{
+    CleartextSignedMessage, Deserializable, DetachedSignature, Message, MessageBuilder,
+    SignedPublicKey, SignedPublicSubKey, SignedSecretKey, SubpacketConfig, VerificationResult,
+};
+use pgp::crypto::hash::HashAlgorithm;
+use pgp::packet::{
+    KeyFlags, PacketHeader, PublicKey, PublicSubkey, Signature, SignatureConfig, SignatureType,
+    Subpacket, SubpacketData, UserAttribute, UserId,
+};
+use pgp::ser::Serialize;
+use pgp::types::{
+    KeyDetails, Password, SignedUser, SignedUserAttribute, Tag, Timestamp, VerifyingKey,
+};
+use rand::Rng;
+use rand_chacha::ChaCha8Rng;
+use serde_json::{json, Value};
+
+use crate::core::{describe_case, hexs, Ctx};
+use crate::rfc;
+use crate::rfc::frame::{deframe, frame, LenForm, RawPacket};
+use crate::rfc::key::RefPub;
+use crate::rfc::sig::{encode_subpacket, parse_sig, parse_subpackets, RefSig};
+use crate::zoo::{self, Alg, Spec};
+
+const TS: u32 = 1_700_000_100;
+
+// ==========================================================================================
+// perturbation primitives
+
+#[derive(Clone, Debug)]
+enum Op {
+    Xor(usize, u8),
+    Set(usize, u8),
+    Del(usize, usize),
+    Ins(usize, Vec<u8>),
+    Replace(Vec<u8>),
+}
+
+impl Op {
+    fn apply(&self, b: &[u8]) -> Vec<u8> {
+        let mut v = b.to_vec();
+        match self {
+            Op::Xor(p, m) => v[*p] ^= *m,
+            Op::Set(p, x) => v[*p] = *x,
+            Op::Del(p, n) => {
+                v.drain(*p..*p + *n);
+            }
+            Op::Ins(p, x) => {
+                let t = v.split_off(*p);
+                v.extend_from_slice(x);
+                v.extend(t);
+            }
+            Op::Replace(x) => v = x.clone(),
+        }
+        v
+    }
+    fn pos(&self) -> usize {
+        match self {
+            Op::Xor(p, _) | Op::Set(p, _) | Op::Del(p, _) | Op::Ins(p, _) => *p,
+            Op::Replace(_) => 0,
+        }
+    }
+    fn json(&self) -> Value {
+        match self {
+            Op::Xor(p, m) => json!({"op": "xor", "at": p, "mask": m}),
+            Op::Set(p, m) => json!({"op": "set", "at": p, "value": m}),
+            Op::Del(p, n) => json!({"op": "del", "at": p, "n": n}),
+            Op::Ins(p, x) => json!({"op": "ins", "at": p, "bytes": hex::encode(x)}),
+            Op::Replace(x) => json!({"op": "replace", "with": hexs(x)}),
+        }
+    }
+}
+
+/// Is the perturbed artefact required to be rejected?
+#[derive(Clone, Copy, PartialEq, Eq, Debug)]
+enum Req {
+    /// semantic bit: every verify entry point must return Err
+    Must,
+    /// non-semantic: verdict not judged (no-panic only)
+    Either,
+    /// bit of an embedded primary-key-binding signature that lives in the UNHASHED area of a
+    /// subkey binding: required to fail for entry points that check back signatures
+    /// (`verify_bindings` of a signing-capable subkey), "either" for the others
+    Backsig,
+}
+
+#[derive(Clone, Debug)]
+struct Pert {
+    /// coarse region (coverage cells, tallies)
+    region: &'static str,
+    /// fine class (goes into the violation signature)
+    detail: String,
+    req: Req,
+    op: Op,
+}
+
+fn add_flips(
+    out: &mut Vec<Pert>,
+    region: &'static str,
+    req: Req,
+    start: usize,
+    len: usize,
+    detail: &dyn Fn(usize) -> String,
+) {
+    for i in 0..len {
+        for b in 0..8 {
+            out.push(Pert {
+                region,
+                detail: detail(i),
+                req,
+                op: Op::Xor(start + i, 1 << b),
+            });
+        }
+    }
+}
+
+fn add_values(out: &mut Vec<Pert>, region: &'static str, req: Req, pos: usize, orig: u8) {
+    for v in 0..=255u8 {
+        if v != orig {
+            out.push(Pert {
+                region,
+                detail: region.to_string(),
+                req,
+                op: Op::Set(pos, v),
+            });
+        }
+    }
+}
+
+/// thorough tier: every byte that has a `Must` single-bit flip additionally gets `n` random
+/// other values
+fn add_byte_subs(out: &mut Vec<Pert>, orig: &[u8], n: usize, rng: &mut ChaCha8Rng) {
+    if n == 0 {
+        return;
+    }
+    let mut extra = vec![];
+    for p in out.iter() {
+        if let (Req::Must, Op::Xor(pos, 1)) = (p.req, &p.op) {
+            for _ in 0..n {
+                let mut v: u8 = rng.gen();
+                if v == orig[*pos] {
+                    v = v.wrapping_add(0x55);
+                }
+                extra.push(Pert {
+                    region: p.region,
+                    detail: p.detail.clone(),
+                    req: Req::Must,
+                    op: Op::Set(*pos, v),
+                });
+            }
+        }
+    }
+    out.extend(extra);
+}
+
+/// per-byte class of a subpacket area: `sp<type>.len|type|body`
+fn area_detail(area: &[u8], prefix: &str) -> Vec<String> {
+    let mut d = vec![format!("{prefix}raw"); area.len()];
+    if let Ok(sps) = parse_subpackets(area) {
+        for sp in sps {
+            let lo = sp.len_octets as usize;
+            for i in 0..sp.total_len {
+                let part = if i < lo {
+                    "len"
+                } else if i == lo {
+                    "type"
+                } else {
+                    "body"
+                };
+                d[sp.offset + i] = format!("{prefix}sp{}.{}", sp.typ, part);
+            }
+        }
+    }
+    d
+}
+
+/// per-octet class of a user attribute packet body (one subpacket; image header of 16 octets)
+fn attr_detail(body: &[u8]) -> Vec<String> {
+    let mut d = vec!["attr.raw".to_string(); body.len()];
+    let lo = match body.first() {
+        Some(o) if *o < 192 => 1,
+        Some(o) if *o < 255 => 2,
+        Some(_) => 5,
+        None => return d,
+    };
+    for (i, x) in d.iter_mut().enumerate() {
+        *x = if i < lo {
+            "attr.splen"
+        } else if i == lo {
+            "attr.sptype"
+        } else if body.get(lo) == Some(&1) && i < lo + 1 + 2 {
+            "attr.image-header-len"
+        } else if body.get(lo) == Some(&1) && i < lo + 1 + 4 {
+            "attr.image-header-version-format"
+        } else if body.get(lo) == Some(&1) && i < lo + 1 + 16 {
+            "attr.image-header-reserved"
+        } else {
+            "attr.data"
+        }
+        .to_string();
+    }
+    d
+}
+
+/// Perturbations of the algorithm specific signature value.
+fn sigval_perts(
+    out: &mut Vec<Pert>,
+    alg: u8,
+    off: usize,
+    data: &[u8],
+    region: &'static str,
+    req: Req,
+    prefix: &str,
+) {
+    let either = |out: &mut Vec<Pert>, s: usize, l: usize, what: &str| {
+        let w = format!("{prefix}{what}");
+        add_flips(out, region, Req::Either, s, l, &|_| w.clone());
+    };
+    let nmpi = match alg {
+        1 | 3 => 1,
+        16 | 17 | 19 | 22 => 2,
+        _ => 0,
+    };
+    if nmpi > 0 {
+        let mut p = 0usize;
+        for k in 0..nmpi {
+            let Some((val, np)) = rfc::read_mpi(data, p) else {
+                either(out, off + p, data.len() - p, "sigval.unparsed");
+                return;
+            };
+            // the two-octet bit count: a change that keeps the octet count leaves the integer
+            // unchanged, one that does not shifts the framing: verdict not judged
+            either(out, off + p, 2, "sigval.mpi-len");
+            let w = format!("{prefix}sigval.mpi{k}");
+            add_flips(out, region, req, off + p + 2, val.len(), &|_| w.clone());
+            p = np;
+        }
+        if p < data.len() {
+            either(out, off + p, data.len() - p, "sigval.trailing");
+        }
+        return;
+    }
+    let native = match alg {
+        27 => 64,
+        28 => 114,
+        _ => 0,
+    };
+    if native > 0 && data.len() == native {
+        let w = format!("{prefix}sigval.native");
+        add_flips(out, region, req, off, native, &|_| w.clone());
+    } else {
+        either(out, off, data.len(), "sigval.unknown-alg");
+    }
+}
+
+struct SigOpts {
+    /// all 255 other values of the four header octets (else: single-bit flips)
+    full_header: bool,
+    /// extra random byte values per semantic byte
+    bytesubs: usize,
+}
+
+/// All perturbations of one signature packet body, classified by the reference parser.
+fn sig_perts(body: &[u8], o: &SigOpts, rng: &mut ChaCha8Rng) -> Result<Vec<Pert>, String> {
+    let rs = parse_sig(body)?;
+    if rs.version != 4 && rs.version != 6 {
+        return Err(format!("signature version {}", rs.version));
+    }
+    if rs.encode() != body {
+        return Err("reference re-encoding differs".into());
+    }
+    let w = if rs.version == 4 { 2 } else { 4 };
+    let mut out = vec![];
+    for (i, name) in ["version", "type", "pubalg", "hashalg"].into_iter().enumerate() {
+        if o.full_header {
+            add_values(&mut out, name, Req::Must, i, body[i]);
+        } else {
+            add_flips(&mut out, name, Req::Must, i, 1, &|_| name.to_string());
+        }
+    }
+    add_flips(&mut out, "hashed-len", Req::Must, 4, w, &|_| "hashed-len".into());
+    let hd = area_detail(&rs.hashed, "hashed.");
+    let soft = embedded_mpi_prefix_octets(&rs.hashed);
+    for i in 0..rs.hashed.len() {
+        let (req, d) = if soft.contains(&i) {
+            (Req::Either, "hashed.sp32.embedded-mpi-len".to_string())
+        } else {
+            (Req::Must, hd[i].clone())
+        };
+        add_flips(&mut out, "hashed", req, rs.off_hashed + i, 1, &|_| d.clone());
+    }
+    add_flips(&mut out, "unhashed-len", Req::Either, rs.off_unhashed - w, w, &|_| {
+        "unhashed-len".into()
+    });
+    unhashed_perts(&mut out, &rs);
+    add_flips(&mut out, "left16", Req::Must, rs.off_left16, 2, &|_| "left16".into());
+    if rs.version == 6 {
+        add_flips(&mut out, "salt-len", Req::Must, rs.off_salt - 1, 1, &|_| "salt-len".into());
+        add_flips(&mut out, "salt", Req::Must, rs.off_salt, rs.salt.len(), &|_| "salt".into());
+    }
+    sigval_perts(&mut out, rs.pub_alg, rs.off_sig, &rs.sig_data, "sigval", Req::Must, "");
+    // truncation of the packet by one octet cuts the signature value
+    out.push(Pert {
+        region: "sig-trunc",
+        detail: "sig-trunc".into(),
+        req: Req::Must,
+        op: Op::Del(body.len() - 1, 1),
+    });
+    // an appended octet is part of the value only for "rest of packet" encodings (Ed448)
+    out.push(Pert {
+        region: "sig-extend",
+        detail: "sig-extend".into(),
+        req: if rs.pub_alg == 28 { Req::Must } else { Req::Either },
+        op: Op::Ins(body.len(), vec![0]),
+    });
+    add_byte_subs(&mut out, body, o.bytesubs, rng);
+    Ok(out)
+}
+
+/// Octets (relative to the area) that are MPI bit-count prefixes of the signature value of an
+/// embedded signature (type 32): same treatment as every other MPI bit count.
+fn embedded_mpi_prefix_octets(area: &[u8]) -> Vec<usize> {
+    let mut v = vec![];
+    let Ok(sps) = parse_subpackets(area) else { return v };
+    for sp in sps {
+        if sp.typ != 32 {
+            continue;
+        }
+        let Ok(inner) = parse_sig(&sp.body) else { continue };
+        let nmpi = match inner.pub_alg {
+            1 | 3 => 1,
+            16 | 17 | 19 | 22 => 2,
+            _ => 0,
+        };
+        let base = sp.offset + sp.len_octets as usize + 1 + inner.off_sig;
+        let mut p = 0;
+        for _ in 0..nmpi {
+            let Some((_, np)) = rfc::read_mpi(&inner.sig_data, p) else { break };
+            v.push(base + p);
+            v.push(base + p + 1);
+            p = np;
+        }
+    }
+    v
+}
+
+/// Unhashed area: "either", except the bits of an embedded back signature (type 32), which are
+/// `Req::Backsig` (classified recursively with the reference parser).
+fn unhashed_perts(out: &mut Vec<Pert>, rs: &RefSig) {
+    let base = rs.off_unhashed;
+    let Ok(sps) = parse_subpackets(&rs.unhashed) else {
+        add_flips(out, "unhashed", Req::Either, base, rs.unhashed.len(), &|_| "unhashed.raw".into());
+        return;
+    };
+    for sp in sps {
+        let s = base + sp.offset;
+        let lo = sp.len_octets as usize;
+        if sp.typ != 32 {
+            let w = format!("unhashed.sp{}", sp.typ);
+            add_flips(out, "unhashed", Req::Either, s, sp.total_len, &|_| w.clone());
+            continue;
+        }
+        add_flips(out, "embedded", Req::Either, s, lo, &|_| "embedded.splen".into());
+        for b in 0..8 {
+            out.push(Pert {
+                region: "embedded",
+                detail: if b == 7 { "embedded.sptype.critical" } else { "embedded.sptype" }.into(),
+                req: if b == 7 { Req::Either } else { Req::Backsig },
+                op: Op::Xor(s + lo, 1 << b),
+            });
+        }
+        let bs = s + lo + 1;
+        let Ok(inner) = parse_sig(&sp.body) else {
+            add_flips(out, "embedded", Req::Either, bs, sp.body.len(), &|_| "embedded.raw".into());
+            continue;
+        };
+        if inner.version != 4 && inner.version != 6 {
+            continue;
+        }
+        let w = if inner.version == 4 { 2 } else { 4 };
+        for (i, name) in ["version", "type", "pubalg", "hashalg"].into_iter().enumerate() {
+            let d = format!("embedded.{name}");
+            add_flips(out, "embedded", Req::Backsig, bs + i, 1, &|_| d.clone());
+        }
+        add_flips(out, "embedded", Req::Backsig, bs + 4, w, &|_| "embedded.hashed-len".into());
+        let hd = area_detail(&inner.hashed, "embedded.hashed.");
+        add_flips(out, "embedded", Req::Backsig, bs + inner.off_hashed, inner.hashed.len(), &|i| {
+            hd[i].clone()
+        });
+        add_flips(out, "embedded", Req::Either, bs + inner.off_unhashed - w, w + inner.unhashed.len(), &|_| {
+            "embedded.unhashed".into()
+        });
+        add_flips(out, "embedded", Req::Backsig, bs + inner.off_left16, 2, &|_| "embedded.left16".into());
+        if inner.version == 6 {
+            add_flips(out, "embedded", Req::Backsig, bs + inner.off_salt - 1, 1, &|_| {
+                "embedded.salt-len".into()
+            });
+            add_flips(out, "embedded", Req::Backsig, bs + inner.off_salt, inner.salt.len(), &|_| {
+                "embedded.salt".into()
+            });
+        }
+        sigval_perts(
+            out,
+            inner.pub_alg,
+            bs + inner.off_sig,
+            &inner.sig_data,
+            "embedded",
+            Req::Backsig,
+            "embedded.",
+        );
+    }
+}
+
+/// Perturbations of a public key packet body (the public part of a secret key body when
+/// `body` is longer than what the reference consumes).
+/// `hashed`: the key is signed content (certificate-forming signatures): every field is
+/// semantic. Otherwise (verifying key of a data signature) only the key material is.
+fn key_perts(body: &[u8], hashed: bool, bytesubs: usize, rng: &mut ChaCha8Rng) -> Result<Vec<Pert>, String> {
+    let (rp, used) = RefPub::parse_prefix(body).ok_or("reference cannot parse key")?;
+    if rp.version != 4 && rp.version != 6 {
+        return Err("key version".into());
+    }
+    let hdr = if hashed { Req::Must } else { Req::Either };
+    let mut out = vec![];
+    add_flips(&mut out, "key.version", hdr, 0, 1, &|_| "key.version".into());
+    add_flips(&mut out, "key.created", hdr, 1, 4, &|_| "key.created".into());
+    add_flips(&mut out, "key.alg", hdr, 5, 1, &|_| "key.alg".into());
+    let moff = if rp.version == 6 {
+        add_flips(&mut out, "key.matlen", Req::Either, 6, 4, &|_| "key.matlen".into());
+        10
+    } else {
+        6
+    };
+    if moff + rp.material.len() != used {
+        return Err("key material offset".into());
+    }
+    let m = &rp.material;
+    let mut p = 0usize;
+    let mut ok = true;
+    let is_point = matches!(rp.alg, 18 | 19 | 22);
+    let mpis = |out: &mut Vec<Pert>, p: &mut usize, n: usize, ok: &mut bool| {
+        for k in 0..n {
+            let Some((val, np)) = rfc::read_mpi(m, *p) else {
+                *ok = false;
+                return;
+            };
+            add_flips(out, "keymat", Req::Either, moff + *p, 2, &|_| "keymat.mpi-len".into());
+            let w = format!("keymat.mpi{k}");
+            // first octet of an EC point: the 0x04 / 0x40 format octet
+            add_flips(out, "keymat", Req::Must, moff + *p + 2, val.len(), &|i| {
+                if is_point && i == 0 { "keymat.point-format".into() } else { w.clone() }
+            });
+            *p = np;
+        }
+    };
+    let oid = |out: &mut Vec<Pert>, p: &mut usize| {
+        let l = m[*p] as usize;
+        add_flips(out, "keymat", Req::Either, moff + *p, 1, &|_| "keymat.oid-len".into());
+        add_flips(out, "keymat", Req::Must, moff + *p + 1, l, &|_| "keymat.oid".into());
+        *p += 1 + l;
+    };
+    match rp.alg {
+        1 | 2 | 3 => mpis(&mut out, &mut p, 2, &mut ok),
+        16 => mpis(&mut out, &mut p, 3, &mut ok),
+        17 => mpis(&mut out, &mut p, 4, &mut ok),
+        19 | 22 => {
+            oid(&mut out, &mut p);
+            mpis(&mut out, &mut p, 1, &mut ok);
+        }
+        18 => {
+            oid(&mut out, &mut p);
+            mpis(&mut out, &mut p, 1, &mut ok);
+            if ok && p + 4 == m.len() {
+                add_flips(&mut out, "keymat", Req::Either, moff + p, 1, &|_| "keymat.kdf-len".into());
+                add_flips(&mut out, "keymat", Req::Must, moff + p + 1, 1, &|_| "keymat.kdf-reserved".into());
+                add_flips(&mut out, "keymat", Req::Must, moff + p + 2, 2, &|_| "keymat.kdf".into());
+                p += 4;
+            } else {
+                ok = false;
+            }
+        }
+        25 | 26 | 27 | 28 => {
+            add_flips(&mut out, "keymat", Req::Must, moff, m.len(), &|_| "keymat.native".into());
+            p = m.len();
+        }
+        _ => ok = false,
+    }
+    if !ok || p != m.len() {
+        return Err(format!("reference cannot classify key material of alg {}", rp.alg));
+    }
+    add_byte_subs(&mut out, body, bytesubs, rng);
+    Ok(out)
+}
+
+/// Content perturbations: every bit (contents are small), deletion / insertion of one octet at
+/// every position (at most 64 in total), line-ending edits. For text signatures a variant with
+/// the same canonical text is the documented equivalence and is not required to fail.
+fn content_perts(content: &[u8], text: bool) -> Vec<(&'static str, Req, Vec<u8>)> {
+    let mut v: Vec<(&'static str, Vec<u8>)> = vec![];
+    for i in 0..content.len() {
+        for b in 0..8 {
+            v.push(("content", Op::Xor(i, 1 << b).apply(content)));
+        }
+    }
+    let n = content.len();
+    let step = (n / 32).max(1);
+    for i in (0..n).step_by(step) {
+        v.push(("content-trunc", Op::Del(i, 1).apply(content)));
+        v.push(("content-extend", Op::Ins(i, vec![b'x']).apply(content)));
+    }
+    if n > 0 {
+        v.push(("content-trunc", Op::Del(n - 1, 1).apply(content)));
+        v.push(("content-trunc", vec![]));
+    }
+    for tail in [&b"\n"[..], b"\r\n", b"\r", b" ", b"\0", b"x"] {
+        v.push(("content-extend", Op::Ins(n, tail.to_vec()).apply(content)));
+        v.push(("content-extend", Op::Ins(0, tail.to_vec()).apply(content)));
+    }
+    if content.ends_with(b"\r\n") {
+        v.push(("content-trunc", content[..n - 2].to_vec()));
+    } else if content.ends_with(b"\n") {
+        v.push(("content-trunc", content[..n - 1].to_vec()));
+    }
+    // LF <-> CRLF rewrites of the whole document
+    v.push(("content-eol", rfc::canon_text(content)));
+    let lf: Vec<u8> = {
+        let mut o = vec![];
+        let mut k = 0;
+        while k < n {
+            if content[k] == b'\r' && k + 1 < n && content[k + 1] == b'\n' {
+                k += 1;
+                continue;
+            }
+            o.push(content[k]);
+            k += 1;
+        }
+        o
+    };
+    v.push(("content-eol", lf));
+    let canon = rfc::canon_text(content);
+    v.into_iter()
+        .filter(|(_, c)| c != content)
+        .map(|(r, c)| {
+            let differs = if text { rfc::canon_text(&c) != canon } else { true };
+            (r, if differs { Req::Must } else { Req::Either }, c)
+        })
+        .collect()
+}
+
+// ==========================================================================================
+// packet level objects: one signature + the artefacts it was made over
+
+#[derive(Clone, Copy, PartialEq, Eq, Debug)]
+enum Kind {
+    /// 0x00 / 0x01 over `content`, verifying key = `signer` (primary key packet)
+    Data,
+    /// 0x10-0x13 / 0x30 self certification of `uid` (user id) on `signer`
+    CertSelf,
+    /// same, made by `signer` over (`signee`, `uid`)
+    CertThird,
+    /// self certification of a user attribute
+    AttrSelf,
+    /// 0x18 / 0x28: `signer` = primary, `signee` = subkey
+    SubBind,
+    /// 0x19: `signer` = subkey, `signee` = primary
+    PrimBind,
+    /// 0x1F / 0x20 by the key over itself
+    KeySelf,
+    /// 0x1F / 0x20 by `signer` over `signee`
+    KeyThird,
+}
+
+#[derive(Clone, Copy, PartialEq, Eq, Debug)]
+enum Site {
+    Sig,
+    Signer,
+    Signee,
+    Uid,
+    Content,
+}
+
+#[derive(Clone, Default)]
+struct Art {
+    sig: Vec<u8>,
+    signer: Vec<u8>,
+    signee: Vec<u8>,
+    uid: Vec<u8>,
+    content: Vec<u8>,
+}
+
+impl Art {
+    fn with(&self, site: Site, v: Vec<u8>) -> Art {
+        let mut a = self.clone();
+        match site {
+            Site::Sig => a.sig = v,
+            Site::Signer => a.signer = v,
+            Site::Signee => a.signee = v,
+            Site::Uid => a.uid = v,
+            Site::Content => a.content = v,
+        }
+        a
+    }
+    fn get(&self, site: Site) -> &[u8] {
+        match site {
+            Site::Sig => &self.sig,
+            Site::Signer => &self.signer,
+            Site::Signee => &self.signee,
+            Site::Uid => &self.uid,
+            Site::Content => &self.content,
+        }
+    }
+    fn json(&self) -> Value {
+        json!({"sig": hexs(&self.sig), "signer": hexs(&self.signer), "signee": hexs(&self.signee),
+               "uid": hexs(&self.uid), "content": hexs(&self.content)})
+    }
+}
+
+struct PObj {
+    name: String,
+    /// object kind as it appears in violation signatures
+    label: String,
+    kind: Kind,
+    version: u8,
+    text: bool,
+    /// the subkey binding carries the "sign" key flag: back signature is mandatory
+    backsig: bool,
+    /// slow public key algorithm: header octets get single-bit flips instead of all values
+    slow: bool,
+    art: Art,
+    /// substitute keys: (class, site, key body)
+    subst: Vec<(&'static str, Site, Vec<u8>)>,
+}
+
+fn hdr(tag: Tag, len: usize) -> PacketHeader {
+    PacketHeader::new_fixed(tag, len as u32)
+}
+fn p_sig(b: &[u8]) -> pgp::errors::Result<Signature> {
+    Signature::try_from_reader(hdr(Tag::Signature, b.len()), b)
+}
+fn p_key(b: &[u8]) -> pgp::errors::Result<PublicKey> {
+    PublicKey::try_from_reader(hdr(Tag::PublicKey, b.len()), b)
+}
+fn p_sub(b: &[u8]) -> pgp::errors::Result<PublicSubkey> {
+    PublicSubkey::try_from_reader(hdr(Tag::PublicSubkey, b.len()), b)
+}
+fn p_uid(b: &[u8]) -> pgp::errors::Result<UserId> {
+    UserId::try_from_reader(hdr(Tag::UserId, b.len()), b)
+}
+fn p_attr(b: &[u8]) -> pgp::errors::Result<UserAttribute> {
+    UserAttribute::try_from_reader(hdr(Tag::UserAttribute, b.len()), b)
+}
+
+/// Runs every verify entry point that applies to the object kind on artefacts re-parsed from
+/// bytes. Result: (entry point, accepted). A parse failure of any artefact is reported as the
+/// single pseudo entry ("parse", false): it is the required error for every entry point.
+fn eval_pobj(ctx: &mut Ctx, o: &PObj, a: &Art, rep: &dyn Fn() -> Value) -> Vec<(&'static str, bool)> {
+    let label = o.label.clone();
+    let mut res: Vec<(&'static str, bool)> = vec![];
+    macro_rules! entry {
+        ($name:expr, $f:expr) => {{
+            ctx.eval();
+            let r = ctx.guarded(&format!("C02/{}/{}", label, $name), || rep(), $f);
+            res.push(($name, matches!(r, Some(Ok(_)))));
+        }};
+    }
+    macro_rules! parse {
+        ($e:expr) => {
+            match ctx.guarded(&format!("C02/{}/parse", label), || rep(), || $e) {
+                Some(Ok(v)) => v,
+                _ => return vec![("parse", false)],
+            }
+        };
+    }
+    let sig = parse!(p_sig(&a.sig));
+    match o.kind {
+        Kind::Data => {
+            let key = parse!(p_key(&a.signer));
+            entry!("Signature::verify", || sig.verify(&key, &a.content[..]));
+            let framed = frame(2, &a.sig, &LenForm::NewMin).expect("frame");
+            entry!("DetachedSignature::verify", || {
+                DetachedSignature::from_bytes(&framed[..])?.verify(&key, &a.content)
+            });
+        }
+        Kind::CertSelf => {
+            let key = parse!(p_key(&a.signer));
+            let id = parse!(p_uid(&a.uid));
+            entry!("Signature::verify_certification", || sig.verify_certification(&key, Tag::UserId, &id));
+            let su = SignedUser::new(id.clone(), vec![sig.clone()]);
+            entry!("SignedUser::verify_bindings", || su.verify_bindings(&key));
+        }
+        Kind::AttrSelf => {
+            let key = parse!(p_key(&a.signer));
+            let at = parse!(p_attr(&a.uid));
+            entry!("Signature::verify_certification", || {
+                sig.verify_certification(&key, Tag::UserAttribute, &at)
+            });
+            let su = SignedUserAttribute::new(at.clone(), vec![sig.clone()]);
+            entry!("SignedUserAttribute::verify_bindings", || su.verify_bindings(&key));
+        }
+        Kind::CertThird => {
+            let signer = parse!(p_key(&a.signer));
+            let signee = parse!(p_key(&a.signee));
+            let id = parse!(p_uid(&a.uid));
+            entry!("Signature::verify_third_party_certification", || {
+                sig.verify_third_party_certification(&signee, &signer, Tag::UserId, &id)
+            });
+            let su = SignedUser::new(id.clone(), vec![sig.clone()]);
+            entry!("SignedUser::verify_third_party", || su.verify_third_party(&signee, &signer));
+        }
+        Kind::SubBind => {
+            let prim = parse!(p_key(&a.signer));
+            let sub = parse!(p_sub(&a.signee));
+            entry!("Signature::verify_subkey_binding", || sig.verify_subkey_binding(&prim, &sub));
+            let ss = SignedPublicSubKey::new(sub.clone(), vec![sig.clone()]);
+            entry!("SignedPublicSubKey::verify_bindings", || ss.verify_bindings(&prim));
+        }
+        Kind::PrimBind => {
+            let sub = parse!(p_sub(&a.signer));
+            let prim = parse!(p_key(&a.signee));
+            entry!("Signature::verify_primary_key_binding", || {
+                sig.verify_primary_key_binding(&sub, &prim)
+            });
+        }
+        Kind::KeySelf => {
+            let key = parse!(p_key(&a.signer));
+            entry!("Signature::verify_key", || sig.verify_key(&key));
+        }
+        Kind::KeyThird => {
+            let signer = parse!(p_key(&a.signer));
+            let signee = parse!(p_key(&a.signee));
+            entry!("Signature::verify_key_third_party", || sig.verify_key_third_party(&signee, &signer));
+        }
+    }
+    res
+}
+
+/// Library parse + re-serialisation of one packet body (diagnosis of accepted perturbations
+/// only, never an oracle).
+fn reser(tag: u8, b: &[u8]) -> Option<Vec<u8>> {
+    crate::core::guard(|| match tag {
+        2 => p_sig(b).ok()?.to_bytes().ok(),
+        4 => pgp::packet::OnePassSignature::try_from_reader(hdr(Tag::OnePassSignature, b.len()), b).ok()?.to_bytes().ok(),
+        6 => p_key(b).ok()?.to_bytes().ok(),
+        14 => p_sub(b).ok()?.to_bytes().ok(),
+        13 => p_uid(b).ok()?.to_bytes().ok(),
+        17 => p_attr(b).ok()?.to_bytes().ok(),
+        _ => None,
+    })
+    .ok()
+    .flatten()
+}
+
+fn same_reser(tag: u8, a: &[u8], b: &[u8]) -> bool {
+    match (reser(tag, a), reser(tag, b)) {
+        (Some(x), Some(y)) => x == y,
+        _ => false,
+    }
+}
+
+fn site_tag(s: Site, k: Kind) -> u8 {
+    match (s, k) {
+        (Site::Sig, _) => 2,
+        (Site::Uid, Kind::AttrSelf) => 17,
+        (Site::Uid, _) => 13,
+        (Site::Signer, Kind::PrimBind) | (Site::Signee, Kind::SubBind) => 14,
+        (Site::Signer | Site::Signee, _) => 6,
+        (Site::Content, _) => 0,
+    }
+}
+
+fn checks_backsig(entry: &str) -> bool {
+    entry.ends_with("SubKey::verify_bindings") || entry.ends_with("Key::verify_bindings")
+}
+
+/// Applies the verdict rule to the results of one perturbed evaluation.
+#[allow(clippy::too_many_arguments)]
+fn judge(
+    ctx: &mut Ctx,
+    label: &str,
+    name: &str,
+    backsig: bool,
+    req: Req,
+    detail: &str,
+    results: &[(&'static str, bool)],
+    rep: &dyn Fn() -> Value,
+    lossy: &dyn Fn() -> bool,
+) {
+    let mut lossy_memo: Option<bool> = None;
+    for (entry, ok) in results {
+        let must = match req {
+            Req::Must => true,
+            Req::Either => false,
+            Req::Backsig => backsig && checks_backsig(entry),
+        };
+        if must {
+            ctx.tally("must.evaluated", 1);
+            if *ok {
+                // symptom class: does the library parse the perturbed artefact to the very same
+                // object as the original (its re-serialisation is identical)? Then the changed
+                // octets never reach the hash: "lossy-parse". Otherwise the object differs and
+                // still verifies.
+                let l = *lossy_memo.get_or_insert_with(lossy);
+                if l {
+                    // one class per artefact type, whatever object / entry point showed it
+                    let class = match detail.split_once(':') {
+                        None => format!("sig:{detail}"),
+                        Some((site, d)) if site.contains("key") => format!("key:{d}"),
+                        Some((site, d)) => format!("{site}:{d}"),
+                    };
+                    ctx.violation(
+                        format!("C02/lossy-parse/{class}/accepted"),
+                        format!("{name}: {entry} returned Ok after a change of a semantic octet ({detail}); the library parses the changed artefact to the same object as the original (re-serialisation identical), so the changed octets are not what is hashed"),
+                        rep(),
+                    );
+                } else {
+                    ctx.violation(
+                        format!("C02/{label}/{entry}/{detail}/accepted"),
+                        format!("{name}: {entry} returned Ok after a perturbation of a semantic region ({detail})"),
+                        rep(),
+                    );
+                }
+            }
+        } else {
+            ctx.tally(if *ok { "either.accepted" } else { "either.rejected" }, 1);
+        }
+    }
+}
+
+const GROUPS: u64 = 8;
+
+/// Progress heartbeat: the watchdog budget applies to the time since the last description, so
+/// a case made of thousands of small evaluations is bounded per slice of evaluations (a hang in
+/// a single verify call is still caught) and does not time out on a loaded machine.
+fn heartbeat(what: &str, name: &str, g: u64, i: usize) {
+    if i % 32 == 0 {
+        describe_case(&format!("C02 {what} {name} group {g} perturbation {i}"));
+    }
+}
+
+/// Drives one packet-level object: baseline, then all perturbations, split over GROUPS cases.
+fn run_pobj(ctx: &mut Ctx, idx: u64, build: &dyn Fn(&mut ChaCha8Rng) -> Result<PObj, String>) {
+    let mut obj: Option<Result<(PObj, Vec<(Site, Pert)>), String>> = None;
+    let bytesubs = ctx.qt(0usize, 3usize);
+    for g in 0..GROUPS {
+        if !ctx.mine() {
+            continue;
+        }
+        if obj.is_none() {
+            let mut rng = ctx.rng("pobj", idx);
+            obj = Some(build(&mut rng).and_then(|o| {
+                let perts = pobj_perts(&o, bytesubs, &mut rng)?;
+                Ok((o, perts))
+            }));
+        }
+        let (o, perts) = match obj.as_ref().unwrap() {
+            Ok(x) => x,
+            Err(e) => {
+                if g == 0 || ctx.only.is_some() {
+                    ctx.inconclusive(format!("object {idx} could not be built: {e}"));
+                }
+                return;
+            }
+        };
+        describe_case(&format!("C02 packet object {} group {g}", o.name));
+        // baseline: the unperturbed object must verify on every entry point
+        let base_rep = || json!({"object": o.name, "art": o.art.json()});
+        let base = eval_pobj(ctx, o, &o.art, &base_rep);
+        if base.iter().any(|(_, ok)| !ok) {
+            ctx.inconclusive(format!("baseline of {} does not verify: {:?}", o.label, base));
+            return;
+        }
+        ctx.seen("objects", format!("{}|v{}", o.label, o.version));
+        for (pi, (site, p)) in perts.iter().enumerate() {
+            if group_of(*site as u64, p, GROUPS) != g {
+                continue;
+            }
+            heartbeat("packet object", &o.name, g, pi / GROUPS as usize);
+            let a = o.art.with(*site, p.op.apply(o.art.get(*site)));
+            let rep = || json!({"object": o.name, "site": format!("{site:?}"), "region": p.detail, "op": p.op.json(), "art": a.json()});
+            let r = eval_pobj(ctx, o, &a, &rep);
+            let sname = site_name(*site, o.kind);
+            let detail = if *site == Site::Sig { p.detail.clone() } else { format!("{sname}:{}", p.detail) };
+            let lossy = || same_reser(site_tag(*site, o.kind), o.art.get(*site), a.get(*site));
+            judge(ctx, &o.label, &o.name, o.backsig, p.req, &detail, &r, &rep, &lossy);
+            ctx.cover(&(&o.name, sname, p.region, cover_pos(&p.op)));
+            ctx.tally(&format!("flips.{}{}", if *site == Site::Sig { String::new() } else { format!("{sname}:") }, p.region), 1);
+            if p.req != Req::Either {
+                ctx.seen("cells", format!("{}|v{}|{}{}", kind_class(o.kind), o.version, if *site == Site::Sig { String::new() } else { format!("{sname}:") }, p.region));
+            }
+        }
+        if g == 0 && idx % 7 == 0 {
+            ctx.sample(json!({"family": "packet", "object": o.name, "perturbations": perts.len(), "art": o.art.json()}));
+        }
+    }
+}
+
+fn site_name(s: Site, k: Kind) -> &'static str {
+    match (s, k) {
+        (Site::Sig, _) => "sig",
+        (Site::Content, _) => "content",
+        (Site::Uid, Kind::AttrSelf) => "attr",
+        (Site::Uid, _) => "uid",
+        (Site::Signer, Kind::Data) => "verifying-key",
+        (Site::Signer, Kind::CertSelf | Kind::AttrSelf | Kind::KeySelf) => "key(self)",
+        (Site::Signer, _) => "signer-key",
+        (Site::Signee, _) => "signee-key",
+    }
+}
+
+fn kind_class(k: Kind) -> &'static str {
+    match k {
+        Kind::Data => "data",
+        Kind::CertSelf | Kind::CertThird | Kind::AttrSelf => "certification",
+        Kind::SubBind => "subkey-binding",
+        Kind::PrimBind => "primary-key-binding",
+        Kind::KeySelf | Kind::KeyThird => "key-signature",
+    }
+}
+
+/// The perturbation list of a packet object over all its artefacts.
+fn pobj_perts(o: &PObj, bytesubs: usize, rng: &mut ChaCha8Rng) -> Result<Vec<(Site, Pert)>, String> {
+    let mut out: Vec<(Site, Pert)> = vec![];
+    let so = SigOpts { full_header: !o.slow, bytesubs };
+    for p in sig_perts(&o.art.sig, &so, rng)? {
+        out.push((Site::Sig, p));
+    }
+    let third = matches!(o.kind, Kind::CertThird | Kind::KeyThird | Kind::SubBind | Kind::PrimBind);
+    // signer key: for self signatures it is signed content as well
+    let signer_hashed = !matches!(o.kind, Kind::Data | Kind::CertThird | Kind::KeyThird);
+    for p in key_perts(&o.art.signer, signer_hashed, bytesubs, rng)? {
+        out.push((Site::Signer, p));
+    }
+    if third {
+        for p in key_perts(&o.art.signee, true, bytesubs, rng)? {
+            out.push((Site::Signee, p));
+        }
+    }
+    if matches!(o.kind, Kind::CertSelf | Kind::CertThird | Kind::AttrSelf) {
+        let u = &o.art.uid;
+        let mut v = vec![];
+        let ad = attr_detail(u);
+        let is_attr = o.kind == Kind::AttrSelf;
+        add_flips(&mut v, "id", Req::Must, 0, u.len(), &|i| if is_attr { ad[i].clone() } else { "id".into() });
+        if o.kind != Kind::AttrSelf {
+            v.push(Pert { region: "id-trunc", detail: "id-trunc".into(), req: Req::Must, op: Op::Del(u.len() - 1, 1) });
+            v.push(Pert { region: "id-trunc", detail: "id-trunc".into(), req: Req::Must, op: Op::Del(0, 1) });
+            v.push(Pert { region: "id-extend", detail: "id-extend".into(), req: Req::Must, op: Op::Ins(u.len(), vec![b' ']) });
+            v.push(Pert { region: "id-extend", detail: "id-extend".into(), req: Req::Must, op: Op::Ins(u.len(), vec![0]) });
+            v.push(Pert { region: "id-extend", detail: "id-extend".into(), req: Req::Must, op: Op::Ins(0, vec![b' ']) });
+        }
+        out.extend(v.into_iter().map(|p| (Site::Uid, p)));
+    }
+    if o.kind == Kind::Data {
+        for (region, req, c) in content_perts(&o.art.content, o.text) {
+            out.push((Site::Content, Pert { region, detail: region.into(), req, op: Op::Replace(c) }));
+        }
+    }
+    for (class, site, body) in &o.subst {
+        out.push((*site, Pert { region: "key-subst", detail: format!("key-subst.{class}"), req: Req::Must, op: Op::Replace(body.clone()) }));
+    }
+    Ok(out)
+}
+
+// ==========================================================================================
+// object builders (library signing APIs only)
+
+fn es<E: std::fmt::Display>(what: &'static str) -> impl Fn(E) -> String {
+    move |e| format!("{what}: {e}")
+}
+
+fn ts() -> Timestamp {
+    Timestamp::from_secs(TS)
+}
+
+#[derive(Clone, Copy, PartialEq, Eq, Debug)]
+enum SpMode {
+    /// hashed: issuer fingerprint + creation time; unhashed: issuer key id (v4)
+    Default,
+    /// hashed: creation time only (no issuer: key substitution reaches the cryptography)
+    Bare,
+    /// hashed: one subpacket of every kind
+    Rich,
+}
+
+fn sp_default(key: &impl KeyDetails) -> Result<(Vec<Subpacket>, Vec<Subpacket>), String> {
+    let hashed = vec![
+        Subpacket::regular(SubpacketData::IssuerFingerprint(key.fingerprint())).map_err(es("sp"))?,
+        Subpacket::regular(SubpacketData::SignatureCreationTime(ts())).map_err(es("sp"))?,
+    ];
+    let mut unhashed = vec![];
+    if key.version() == pgp::types::KeyVersion::V4 {
+        unhashed.push(Subpacket::regular(SubpacketData::IssuerKeyId(key.legacy_key_id())).map_err(es("sp"))?);
+    }
+    Ok((hashed, unhashed))
+}
+
+/// A hashed area with one subpacket of (almost) every type, written with the reference encoder
+/// and taken through the library's parser (booleans false, notation not human-readable, two-octet
+/// key flags and features, unknown and experimental types: the forms whose re-serialisation is
+/// most likely to be lossy).
+fn sp_rich(key: &impl KeyDetails) -> Result<Vec<Subpacket>, String> {
+    let v6 = key.version() == pgp::types::KeyVersion::V6;
+    let fp = key.fingerprint();
+    let mut fpb = vec![if v6 { 6u8 } else { 4u8 }];
+    fpb.extend_from_slice(fp.as_bytes());
+    let kid = key.legacy_key_id();
+    let mut revkey = vec![0x80u8, 1];
+    revkey.extend([0x5Au8; 20]);
+    let mut target = vec![1u8, 8];
+    target.extend([0xA5u8; 32]);
+    let list: Vec<(u8, bool, Vec<u8>)> = vec![
+        (2, true, TS.to_be_bytes().to_vec()),
+        (3, false, 86_400_000u32.to_be_bytes().to_vec()),
+        (4, false, vec![0]),
+        (5, false, vec![1, 60]),
+        (6, false, b"<[^>]+[@.]example\\.org>$\0".to_vec()),
+        (7, false, vec![0]),
+        (9, false, 31_536_000u32.to_be_bytes().to_vec()),
+        (11, false, vec![9, 8, 7]),
+        (12, false, revkey),
+        (16, false, kid.as_ref().to_vec()),
+        (20, false, { let mut n = vec![0u8, 0, 0, 0, 0, 11, 0, 3]; n.extend(b"k@example.x"); n.extend(b"val"); n }),
+        (21, false, vec![10, 8]),
+        (22, false, vec![2, 1]),
+        (23, false, vec![0x80]),
+        (24, false, b"hkps://keys.example.org".to_vec()),
+        (25, false, vec![0]),
+        (26, false, b"https://example.org/policy".to_vec()),
+        (27, false, vec![0x03, 0x04]),
+        (28, false, b"me@example.org".to_vec()),
+        (29, false, vec![0, b'n', b'o']),
+        (30, false, vec![0x01, 0x00]),
+        (31, false, target),
+        (33, false, fpb.clone()),
+        (34, false, vec![2]),
+        (35, false, fpb),
+        (39, false, vec![9, 2, 7, 2]),
+        (101, false, b"exp".to_vec()),
+        (50, false, b"unk".to_vec()),
+    ];
+    let mut area = vec![];
+    for (t, c, b) in &list {
+        area.extend(encode_subpacket(*t, *c, b, 0));
+    }
+    let rs = RefSig {
+        version: if v6 { 6 } else { 4 },
+        typ: 0,
+        pub_alg: 27,
+        hash_alg: 8,
+        created: 0,
+        issuer: [0; 8],
+        hashed: area,
+        unhashed: vec![],
+        left16: [0, 0],
+        salt: if v6 { vec![0; 16] } else { vec![] },
+        sig_data: vec![0; 64],
+        off_hashed: 0,
+        off_unhashed: 0,
+        off_left16: 0,
+        off_salt: 0,
+        off_sig: 0,
+    };
+    let sig = p_sig(&rs.encode()).map_err(es("library rejects the reference-built rich hashed area"))?;
+    Ok(sig.config().ok_or("no config")?.hashed_subpackets.clone())
+}
+
+fn sp_for(mode: SpMode, key: &impl KeyDetails) -> Result<(Vec<Subpacket>, Vec<Subpacket>), String> {
+    match mode {
+        SpMode::Default => sp_default(key),
+        SpMode::Bare => Ok((
+            vec![Subpacket::regular(SubpacketData::SignatureCreationTime(ts())).map_err(es("sp"))?],
+            vec![],
+        )),
+        SpMode::Rich => Ok((sp_rich(key)?, vec![])),
+    }
+}
+
+fn is_slow_alg(a: &Alg) -> bool {
+    matches!(a, Alg::Rsa2048 | Alg::Dsa2048 | Alg::EcdsaP521 | Alg::EcdsaP384 | Alg::Ed448)
+}
+
+/// substitute verifying keys: another key of the same algorithm, one of a different algorithm
+fn substitutes(spec: &Spec, kidx: u64) -> Vec<(&'static str, Vec<u8>)> {
+    let mut v = vec![];
+    let same = match spec.primary {
+        Alg::Dsa2048 => None,
+        Alg::Rsa2048 => {
+            let other = if spec.enc_sub.is_some() {
+                Spec::simple(spec.v6, Alg::Rsa2048, None)
+            } else {
+                Spec::simple(spec.v6, Alg::Rsa2048, Some(Alg::Rsa2048))
+            };
+            Some(zoo::key(&other, 0))
+        }
+        _ => Some(zoo::key(&Spec::simple(spec.v6, spec.primary.clone(), None), kidx + 11)),
+    };
+    if let Some(k) = same {
+        v.push(("same-alg", k.primary_key.public_key().to_bytes().expect("key bytes")));
+    }
+    let dalg = match (&spec.primary, spec.v6) {
+        (Alg::Ed25519 | Alg::Ed25519Legacy, _) => Alg::EcdsaP256,
+        (_, true) => Alg::Ed25519,
+        (_, false) => Alg::Ed25519Legacy,
+    };
+    let k = zoo::key(&Spec::simple(spec.v6, dalg, None), 13);
+    v.push(("other-alg", k.primary_key.public_key().to_bytes().expect("key bytes")));
+    v
+}
+
+#[derive(Clone)]
+struct DataSpec {
+    spec: Spec,
+    kidx: u64,
+    text: bool,
+    hash: HashAlgorithm,
+    sp: SpMode,
+    content: Vec<u8>,
+}
+
+fn data_contents(i: usize) -> Vec<u8> {
+    let v: [&[u8]; 4] = [
+        b"Hello, world. \x00\xff\x80 binary\n",
+        b"line one\r\nline two\nlast line without eol",
+        b"a\n\nb \r\n",
+        b"0123456789abcdef0123456789abcdef",
+    ];
+    v[i % v.len()].to_vec()
+}
+
+fn build_data(ds: &DataSpec, rng: &mut ChaCha8Rng) -> Result<PObj, String> {
+    let key = zoo::key(&ds.spec, ds.kidx);
+    let (hashed, unhashed) = sp_for(ds.sp, &key.primary_key)?;
+    let cfg = SubpacketConfig::UserDefined { hashed, unhashed };
+    let pw = Password::empty();
+    let det = if ds.text {
+        DetachedSignature::sign_text_data_with_subpackets(&mut *rng, &key.primary_key, &pw, ds.hash, &ds.content[..], cfg)
+    } else {
+        DetachedSignature::sign_binary_data_with_subpackets(&mut *rng, &key.primary_key, &pw, ds.hash, &ds.content[..], cfg)
+    }
+    .map_err(es("sign"))?;
+    let version = if ds.spec.v6 { 6 } else { 4 };
+    Ok(PObj {
+        name: format!("detached-{}|{}|{:?}|{:?}", if ds.text { "text" } else { "binary" }, ds.spec.name(), ds.hash, ds.sp),
+        label: format!("detached-{}", if ds.text { "text" } else { "binary" }),
+        kind: Kind::Data,
+        version,
+        text: ds.text,
+        backsig: false,
+        slow: is_slow_alg(&ds.spec.primary),
+        art: Art {
+            sig: det.signature.to_bytes().map_err(es("ser"))?,
+            signer: key.primary_key.public_key().to_bytes().map_err(es("ser"))?,
+            content: ds.content.clone(),
+            ..Default::default()
+        },
+        subst: substitutes(&ds.spec, ds.kidx).into_iter().map(|(c, b)| (c, Site::Signer, b)).collect(),
+    })
+}
+
+/// Which certificate-forming signature to take from / make on a zoo certificate
+#[derive(Clone, Copy, PartialEq, Eq, Debug)]
+enum CertSig {
+    /// 0x13 as generated
+    UidPositive,
+    /// made with sign_certification: 0x10, 0x11, 0x12, 0x30
+    UidMade(u8),
+    /// made with sign_certification_third_party (type)
+    UidThird(u8),
+    /// user attribute, 0x13
+    Attr,
+    /// 0x18 of the encryption subkey as generated
+    SubEnc,
+    /// 0x18 of the signing subkey as generated (back signature in the hashed area)
+    SubSign,
+    /// 0x18 of the signing subkey re-made with the back signature in the UNHASHED area
+    SubSignUnhashed,
+    /// the embedded 0x19
+    Back,
+    /// 0x28 made with sign_subkey_binding
+    SubRevocation,
+    /// 0x1F as generated (v6) or made with sign_key (v4)
+    Direct,
+    /// 0x1F by another key
+    DirectThird,
+    /// 0x20 made with sign_key
+    KeyRevocation,
+    /// 0x20 by another key
+    KeyRevocationThird,
+}
+
+fn cert_spec(v6: bool, primary: Alg, enc: Alg, sign: Option<Alg>) -> Spec {
+    let mut s = Spec::simple(v6, primary, Some(enc));
+    s.sign_sub = sign;
+    s.uids = 2;
+    s
+}
+
+fn styp(t: u8) -> SignatureType {
+    SignatureType::from(t)
+}
+
+fn cfg_for(
+    rng: &mut ChaCha8Rng,
+    key: &(impl pgp::types::SigningKey + KeyDetails),
+    typ: SignatureType,
+    extra: Vec<SubpacketData>,
+) -> Result<SignatureConfig, String> {
+    let mut c = SignatureConfig::from_key(&mut *rng, key, typ).map_err(es("config"))?;
+    let (mut hashed, unhashed) = sp_default(key)?;
+    for e in extra {
+        hashed.push(Subpacket::regular(e).map_err(es("sp"))?);
+    }
+    c.hashed_subpackets = hashed;
+    c.unhashed_subpackets = unhashed;
+    Ok(c)
+}
+
+/// Re-makes the binding of the signing subkey with the back signature in the unhashed area.
+fn remake_sign_binding(rng: &mut ChaCha8Rng, key: &SignedSecretKey, j: usize) -> Result<Signature, String> {
+    let pw = Password::empty();
+    let prim_pub = key.primary_key.public_key();
+    let sub = &key.secret_subkeys[j];
+    let back = cfg_for(rng, &sub.key, SignatureType::KeyBinding, vec![])?
+        .sign_primary_key_binding(&sub.key, sub.key.public_key(), &pw, prim_pub)
+        .map_err(es("sign 0x19"))?;
+    let mut flags = KeyFlags::default();
+    flags.set_sign(true);
+    let mut c = cfg_for(rng, &key.primary_key, SignatureType::SubkeyBinding, vec![SubpacketData::KeyFlags(flags)])?;
+    c.unhashed_subpackets
+        .push(Subpacket::regular(SubpacketData::EmbeddedSignature(Box::new(back))).map_err(es("sp"))?);
+    c.sign_subkey_binding(&key.primary_key, prim_pub, &pw, sub.key.public_key())
+        .map_err(es("sign 0x18"))
+}
+
+fn sign_sub_index(key: &SignedSecretKey) -> Option<usize> {
+    key.secret_subkeys.iter().position(|s| s.signatures.iter().any(|g| g.key_flags().sign()))
+}
+fn enc_sub_index(key: &SignedSecretKey) -> Option<usize> {
+    key.secret_subkeys.iter().position(|s| s.signatures.iter().all(|g| !g.key_flags().sign()))
+}
+
+fn build_certsig(spec: &Spec, kidx: u64, which: CertSig, rng: &mut ChaCha8Rng) -> Result<PObj, String> {
+    let key = zoo::key(spec, kidx);
+    let pw = Password::empty();
+    let prim = key.primary_key.public_key().clone();
+    let prim_b = prim.to_bytes().map_err(es("ser"))?;
+    let other_spec = Spec::simple(spec.v6, if spec.v6 { Alg::Ed25519 } else { Alg::Ed25519Legacy }, None);
+    let other = zoo::key(&other_spec, 21);
+    let other_b = other.primary_key.public_key().to_bytes().map_err(es("ser"))?;
+    let user = key.details.users.first().ok_or("no user")?;
+    let uid_b = user.id.to_bytes().map_err(es("ser"))?;
+    let mut art = Art { signer: prim_b.clone(), ..Default::default() };
+    let mut backsig = false;
+    let mut subst: Vec<(&'static str, Site, Vec<u8>)> = vec![];
+    let keysub = substitutes(spec, kidx);
+    let (kind, sig): (Kind, Signature) = match which {
+        CertSig::UidPositive => {
+            art.uid = uid_b;
+            (Kind::CertSelf, user.signatures.first().ok_or("no cert")?.clone())
+        }
+        CertSig::UidMade(t) => {
+            art.uid = uid_b;
+            let extra = if t == 0x30 {
+                vec![SubpacketData::RevocationReason(pgp::packet::RevocationCode::CertUserIdInvalid, Bytes::from_static(b"gone"))]
+            } else {
+                vec![]
+            };
+            let s = cfg_for(rng, &key.primary_key, styp(t), extra)?
+                .sign_certification(&key.primary_key, &prim, &pw, Tag::UserId, &user.id)
+                .map_err(es("sign cert"))?;
+            (Kind::CertSelf, s)
+        }
+        CertSig::UidThird(t) => {
+            art.uid = uid_b;
+            art.signer = other_b.clone();
+            art.signee = prim_b.clone();
+            let s = cfg_for(rng, &other.primary_key, styp(t), vec![])?
+                .sign_certification_third_party(&other.primary_key, &pw, &prim, Tag::UserId, &user.id)
+                .map_err(es("sign cert3"))?;
+            (Kind::CertThird, s)
+        }
+        CertSig::Attr => {
+            let at = UserAttribute::new_image(Bytes::from_static(b"\xff\xd8\xff\xe0not really a jpeg\xff\xd9")).map_err(es("attr"))?;
+            art.uid = at.to_bytes().map_err(es("ser"))?;
+            let s = cfg_for(rng, &key.primary_key, SignatureType::CertPositive, vec![])?
+                .sign_certification(&key.primary_key, &prim, &pw, Tag::UserAttribute, &at)
+                .map_err(es("sign attr"))?;
+            (Kind::AttrSelf, s)
+        }
+        CertSig::SubEnc | CertSig::SubSign | CertSig::SubSignUnhashed | CertSig::SubRevocation | CertSig::Back => {
+            let j = match which {
+                CertSig::SubEnc | CertSig::SubRevocation => enc_sub_index(&key),
+                _ => sign_sub_index(&key),
+            }
+            .ok_or("certificate has no such subkey")?;
+            let sub = &key.secret_subkeys[j];
+            let sub_b = sub.key.public_key().to_bytes().map_err(es("ser"))?;
+            art.signee = sub_b.clone();
+            // another subkey of the same certificate as substitute signee
+            if let Some(o) = key.secret_subkeys.iter().enumerate().find(|(i, _)| *i != j) {
+                subst.push(("other-subkey", Site::Signee, o.1.key.public_key().to_bytes().map_err(es("ser"))?));
+            }
+            match which {
+                CertSig::SubEnc => (Kind::SubBind, sub.signatures[0].clone()),
+                CertSig::SubSign => {
+                    backsig = true;
+                    (Kind::SubBind, sub.signatures[0].clone())
+                }
+                CertSig::SubSignUnhashed => {
+                    backsig = true;
+                    (Kind::SubBind, remake_sign_binding(rng, &key, j)?)
+                }
+                CertSig::SubRevocation => {
+                    let s = cfg_for(rng, &key.primary_key, SignatureType::SubkeyRevocation, vec![])?
+                        .sign_subkey_binding(&key.primary_key, &prim, &pw, sub.key.public_key())
+                        .map_err(es("sign 0x28"))?;
+                    (Kind::SubBind, s)
+                }
+                _ => {
+                    let b = sub.signatures[0].embedded_signature().ok_or("no embedded signature")?.clone();
+                    art.signer = sub_b;
+                    art.signee = prim_b.clone();
+                    subst.clear();
+                    (Kind::PrimBind, b)
+                }
+            }
+        }
+        CertSig::Direct => {
+            let s = match key.details.direct_signatures.first() {
+                Some(s) => s.clone(),
+                None => cfg_for(rng, &key.primary_key, SignatureType::Key, vec![])?
+                    .sign_key(&key.primary_key, &pw, &prim)
+                    .map_err(es("sign 0x1f"))?,
+            };
+            (Kind::KeySelf, s)
+        }
+        CertSig::KeyRevocation => {
+            let s = cfg_for(rng, &key.primary_key, SignatureType::KeyRevocation, vec![])?
+                .sign_key(&key.primary_key, &pw, &prim)
+                .map_err(es("sign 0x20"))?;
+            (Kind::KeySelf, s)
+        }
+        CertSig::DirectThird | CertSig::KeyRevocationThird => {
+            art.signer = other_b.clone();
+            art.signee = prim_b.clone();
+            let t = if which == CertSig::DirectThird { SignatureType::Key } else { SignatureType::KeyRevocation };
+            let s = cfg_for(rng, &other.primary_key, t, vec![])?
+                .sign_key(&other.primary_key, &pw, &prim)
+                .map_err(es("sign 3rd key"))?;
+            (Kind::KeyThird, s)
+        }
+    };
+    art.sig = sig.to_bytes().map_err(es("ser"))?;
+    let t: u8 = sig.typ().map(u8::from).unwrap_or(0xff);
+    // key substitutions
+    match kind {
+        Kind::CertSelf | Kind::AttrSelf | Kind::KeySelf | Kind::SubBind => {
+            for (c, b) in keysub {
+                subst.push((c, Site::Signer, b));
+            }
+        }
+        Kind::CertThird | Kind::KeyThird => {
+            subst.push(("other-signee", Site::Signee, other_b.clone()));
+            subst.push(("signee-as-signer", Site::Signer, prim_b.clone()));
+        }
+        Kind::PrimBind => {
+            subst.push(("other-primary", Site::Signee, other_b.clone()));
+        }
+        Kind::Data => {}
+    }
+    let label = match kind {
+        Kind::CertSelf => format!("cert-{t:#04x}"),
+        Kind::CertThird => format!("cert3-{t:#04x}"),
+        Kind::AttrSelf => format!("attr-{t:#04x}"),
+        Kind::SubBind if which == CertSig::SubSignUnhashed => format!("subkey-{t:#04x}-backsig-unhashed"),
+        Kind::SubBind if which == CertSig::SubSign => format!("subkey-{t:#04x}-backsig-hashed"),
+        Kind::SubBind => format!("subkey-{t:#04x}"),
+        Kind::PrimBind => format!("primary-binding-{t:#04x}"),
+        Kind::KeySelf => format!("key-{t:#04x}"),
+        Kind::KeyThird => format!("key3-{t:#04x}"),
+        Kind::Data => unreachable!(),
+    };
+    Ok(PObj {
+        name: format!("{label}|{}|{which:?}", spec.name()),
+        label,
+        kind,
+        version: if spec.v6 { 6 } else { 4 },
+        text: false,
+        backsig,
+        slow: is_slow_alg(&spec.primary),
+        art,
+        subst,
+    })
+}
+
+// ==========================================================================================
+// messages: one-pass signed (1-3 signers) and prefixed signatures
+
+struct MObj {
+    name: String,
+    label: &'static str,
+    version: String,
+    text: bool,
+    bytes: Vec<u8>,
+    pkts: Vec<RawPacket>,
+    keys: Vec<PublicKey>,
+    other_key: PublicKey,
+    /// packet indices
+    ops: Vec<usize>,
+    sigs: Vec<usize>,
+    lit: usize,
+    /// signature index (as used by verify_nested_explicit) of ops[k] / sigs[k]
+    idx_of_ops: Vec<usize>,
+    idx_of_sig: Vec<usize>,
+    /// key (index into keys) whose signature sits at signature index i
+    key_of_idx: Vec<usize>,
+    /// offset of the data inside the literal packet body
+    lit_data_off: usize,
+}
+
+#[derive(Debug, Clone, Default)]
+struct MOut {
+    parsed: bool,
+    explicit: Vec<bool>,
+    verify0: bool,
+    nested: Vec<bool>,
+    read0: bool,
+}
+
+impl MObj {
+    fn n(&self) -> usize {
+        self.key_of_idx.len().max(self.sigs.len())
+    }
+    /// message with packet `k` replaced by a re-framed body
+    fn splice(&self, k: usize, body: &[u8]) -> Vec<u8> {
+        let p = &self.pkts[k];
+        let mut out = self.bytes[..p.offset].to_vec();
+        out.extend(frame(p.tag, body, &LenForm::NewMin).expect("frame"));
+        out.extend_from_slice(&self.bytes[p.offset + p.encoded_len..]);
+        out
+    }
+}
+
+/// Parses the message, reads it to the end and runs the message-level entry points.
+/// `pair`: key index to use for signature index i.
+fn eval_msg(ctx: &mut Ctx, label: &str, bytes: &[u8], keys: &[PublicKey], pair: &[usize], rep: &dyn Fn() -> Value) -> MOut {
+    let n = pair.len();
+    let r = ctx.guarded(&format!("C02/{label}/Message"), || rep(), || {
+        let mut out = MOut { explicit: vec![false; n], nested: vec![false; n], ..Default::default() };
+        let Ok(mut msg) = Message::from_bytes(bytes) else { return out };
+        let mut sink = vec![];
+        if msg.read_to_end(&mut sink).is_err() {
+            return out;
+        }
+        out.parsed = true;
+        for i in 0..n {
+            out.explicit[i] = msg.verify_nested_explicit(i, &keys[pair[i]]).is_ok();
+        }
+        out.verify0 = msg.verify(&keys[pair[0]]).is_ok();
+        let refs: Vec<&dyn VerifyingKey> = pair.iter().map(|j| &keys[*j] as &dyn VerifyingKey).collect();
+        if let Ok(v) = msg.verify_nested(&refs) {
+            for (i, r) in v.iter().enumerate() {
+                out.nested[i] = matches!(r, VerificationResult::Valid(_));
+            }
+        }
+        drop(msg);
+        if let Ok(mut m2) = Message::from_bytes(bytes) {
+            out.read0 = m2.verify_read(&keys[pair[0]]).is_ok();
+        }
+        out
+    });
+    ctx.evals_add((n * n + n + 2) as u64);
+    r.unwrap_or_else(|| MOut { explicit: vec![false; n], nested: vec![false; n], ..Default::default() })
+}
+
+#[derive(Clone)]
+struct MsgSpec {
+    signers: Vec<(Spec, HashAlgorithm)>,
+    text: bool,
+    prefixed: bool,
+    content: Vec<u8>,
+}
+
+fn build_msg(ms: &MsgSpec, rng: &mut ChaCha8Rng, ctx: &mut Ctx) -> Result<MObj, String> {
+    let pw = Password::empty();
+    let skeys: Vec<SignedSecretKey> = ms.signers.iter().enumerate().map(|(i, (s, _))| zoo::key(s, 30 + i as u64)).collect();
+    let keys: Vec<PublicKey> = skeys.iter().map(|k| k.primary_key.public_key().clone()).collect();
+    let v6 = ms.signers[0].0.v6;
+    let other_key = zoo::key(&Spec::simple(v6, ms.signers[0].0.primary.clone(), None), 41)
+        .primary_key
+        .public_key()
+        .clone();
+    let bytes = if ms.prefixed {
+        // [signature]* [literal]: signatures made as detached signatures over the same data
+        let mut out = vec![];
+        for (k, (_, h)) in skeys.iter().zip(&ms.signers) {
+            let (hashed, unhashed) = sp_default(&k.primary_key)?;
+            let cfg = SubpacketConfig::UserDefined { hashed, unhashed };
+            let d = if ms.text {
+                DetachedSignature::sign_text_data_with_subpackets(&mut *rng, &k.primary_key, &pw, *h, &ms.content[..], cfg)
+            } else {
+                DetachedSignature::sign_binary_data_with_subpackets(&mut *rng, &k.primary_key, &pw, *h, &ms.content[..], cfg)
+            }
+            .map_err(es("sign"))?;
+            out.extend(frame(2, &d.signature.to_bytes().map_err(es("ser"))?, &LenForm::NewMin).unwrap());
+        }
+        let mut lit = vec![if ms.text { b'u' } else { b'b' }, 1, b'f'];
+        lit.extend(TS.to_be_bytes());
+        lit.extend_from_slice(&ms.content);
+        out.extend(frame(11, &lit, &LenForm::NewMin).unwrap());
+        out
+    } else {
+        let mut b = MessageBuilder::from_bytes("f", ms.content.clone());
+        if ms.text {
+            b.sign_text();
+        }
+        for (k, (_, h)) in skeys.iter().zip(&ms.signers) {
+            let (hashed, unhashed) = sp_default(&k.primary_key)?;
+            b.sign_with_subpackets(&k.primary_key, Password::empty(), *h, SubpacketConfig::UserDefined { hashed, unhashed });
+        }
+        b.to_vec(&mut *rng).map_err(es("build message"))?
+    };
+    let pkts = deframe(&bytes)?;
+    if pkts.iter().any(|p| !p.partial_chunks.is_empty() || p.indeterminate) {
+        return Err("message uses partial framing".into());
+    }
+    let ops: Vec<usize> = pkts.iter().enumerate().filter(|(_, p)| p.tag == 4).map(|(i, _)| i).collect();
+    let sigs: Vec<usize> = pkts.iter().enumerate().filter(|(_, p)| p.tag == 2).map(|(i, _)| i).collect();
+    let lits: Vec<usize> = pkts.iter().enumerate().filter(|(_, p)| p.tag == 11).map(|(i, _)| i).collect();
+    let n = keys.len();
+    if lits.len() != 1 || sigs.len() != n || (!ms.prefixed && ops.len() != n) || pkts.len() != lits.len() + sigs.len() + ops.len() {
+        return Err(format!("unexpected message structure: tags {:?}", pkts.iter().map(|p| p.tag).collect::<Vec<_>>()));
+    }
+    let lit = lits[0];
+    let lb = &pkts[lit].body;
+    let lit_data_off = 2 + lb[1] as usize + 4;
+    if lb[lit_data_off..] != ms.content[..] {
+        return Err("literal body is not header + content".into());
+    }
+    let label = if ms.prefixed { "prefixed" } else { "one-pass" };
+    let mut m = MObj {
+        name: format!("{label}|{}|{}|n={n}", ms.signers.iter().map(|(s, h)| format!("{}+{h:?}", s.name())).collect::<Vec<_>>().join(","), if ms.text { "text" } else { "binary" }),
+        label,
+        version: if ms.signers.iter().all(|s| s.0.v6) { "v6".into() } else if ms.signers.iter().all(|s| !s.0.v6) { "v4".into() } else { "v4+v6".into() },
+        text: ms.text,
+        bytes,
+        pkts,
+        keys,
+        other_key,
+        ops,
+        sigs,
+        lit,
+        idx_of_ops: (0..n).collect(),
+        idx_of_sig: vec![],
+        key_of_idx: vec![],
+        lit_data_off,
+    };
+    // which key verifies signature index i (baseline)
+    let rep = || json!({"object": m.name, "message": hexs(&m.bytes)});
+    for i in 0..n {
+        let mut found = None;
+        for j in 0..n {
+            let mut pair: Vec<usize> = (0..n).collect();
+            pair[i] = j;
+            // only index i matters here
+            let o = eval_msg(ctx, label, &m.bytes, &m.keys, &pair, &rep);
+            if o.parsed && o.explicit[i] {
+                found = Some(j);
+                break;
+            }
+        }
+        m.key_of_idx.push(found.ok_or_else(|| format!("baseline: signature index {i} verifies with no signer key"))?);
+    }
+    let base = eval_msg(ctx, label, &m.bytes, &m.keys, &m.key_of_idx, &rep);
+    if !(base.parsed && base.verify0 && base.read0 && base.explicit.iter().all(|b| *b) && base.nested.iter().all(|b| *b)) {
+        return Err(format!("baseline message does not verify: {base:?}"));
+    }
+    // which signature index does trailing/leading signature packet p belong to: break its
+    // left16 and see which index stops verifying
+    for p in 0..n {
+        let k = m.sigs[p];
+        let body = &m.pkts[k].body;
+        let rs = parse_sig(body)?;
+        let nb = Op::Xor(rs.off_left16, 1).apply(body);
+        let o = eval_msg(ctx, label, &m.splice(k, &nb), &m.keys, &m.key_of_idx, &rep);
+        let failing: Vec<usize> = (0..n).filter(|i| !o.explicit[*i]).collect();
+        if !o.parsed || failing.len() != 1 {
+            return Err(format!("cannot attribute signature packet {p} to an index: {o:?}"));
+        }
+        m.idx_of_sig.push(failing[0]);
+    }
+    if !ms.prefixed {
+        // ops[k] <-> index k is the library's documented order; confirm by breaking the type
+        for k in 0..n {
+            let pk = m.ops[k];
+            let nb = Op::Xor(1, 0x40).apply(&m.pkts[pk].body);
+            let o = eval_msg(ctx, label, &m.splice(pk, &nb), &m.keys, &m.key_of_idx, &rep);
+            let failing: Vec<usize> = (0..n).filter(|i| !o.explicit[*i]).collect();
+            if o.parsed && failing != vec![k] {
+                return Err(format!("cannot attribute one-pass packet {k} to an index: {o:?}"));
+            }
+        }
+    }
+    Ok(m)
+}
+
+/// perturbations of a message: (packet index, affected signature indices, pert on the body)
+fn msg_perts(m: &MObj, bytesubs: usize, rng: &mut ChaCha8Rng) -> Result<Vec<(usize, Vec<usize>, Pert)>, String> {
+    let n = m.n();
+    let all: Vec<usize> = (0..n).collect();
+    let mut out = vec![];
+    // literal packet
+    let lb = &m.pkts[m.lit].body;
+    let mut v = vec![];
+    add_flips(&mut v, "literal-header", Req::Either, 0, m.lit_data_off, &|_| "literal-header".into());
+    for p in v {
+        out.push((m.lit, all.clone(), p));
+    }
+    let content = &lb[m.lit_data_off..];
+    for (region, req, c) in content_perts(content, m.text) {
+        let mut nb = lb[..m.lit_data_off].to_vec();
+        nb.extend(c);
+        out.push((m.lit, all.clone(), Pert { region, detail: region.into(), req, op: Op::Replace(nb) }));
+    }
+    // one-pass packets
+    for (k, pk) in m.ops.iter().enumerate() {
+        let b = &m.pkts[*pk].body;
+        let ro = rfc::sig::parse_ops(b)?;
+        let mut v = vec![];
+        add_values(&mut v, "ops.version", Req::Must, 0, b[0]);
+        add_values(&mut v, "ops.type", Req::Must, 1, b[1]);
+        add_values(&mut v, "ops.hashalg", Req::Must, 2, b[2]);
+        add_values(&mut v, "ops.pubalg", Req::Must, 3, b[3]);
+        let mut p = 4;
+        if ro.version == 6 {
+            add_flips(&mut v, "ops.salt-len", Req::Must, 4, 1, &|_| "ops.salt-len".into());
+            add_flips(&mut v, "ops.salt", Req::Must, 5, ro.salt.len(), &|_| "ops.salt".into());
+            p = 5 + ro.salt.len();
+        }
+        add_flips(&mut v, "ops.issuer", Req::Either, p, ro.issuer.len(), &|_| "ops.issuer".into());
+        add_flips(&mut v, "ops.nested", Req::Either, p + ro.issuer.len(), 1, &|_| "ops.nested".into());
+        for x in v {
+            out.push((*pk, vec![m.idx_of_ops[k]], x));
+        }
+    }
+    // signature packets
+    for (p, pk) in m.sigs.iter().enumerate() {
+        let b = &m.pkts[*pk].body;
+        let so = SigOpts { full_header: true, bytesubs };
+        for x in sig_perts(b, &so, rng)? {
+            out.push((*pk, vec![m.idx_of_sig[p]], x));
+        }
+    }
+    Ok(out)
+}
+
+fn run_mobj(ctx: &mut Ctx, idx: u64, ms: &MsgSpec) {
+    let mut obj: Option<Result<(MObj, Vec<(usize, Vec<usize>, Pert)>), String>> = None;
+    let bytesubs = ctx.qt(0usize, 3usize);
+    for g in 0..GROUPS {
+        if !ctx.mine() {
+            continue;
+        }
+        if obj.is_none() {
+            let mut rng = ctx.rng("mobj", idx);
+            obj = Some(build_msg(ms, &mut rng, ctx).and_then(|m| {
+                let p = msg_perts(&m, bytesubs, &mut rng)?;
+                Ok((m, p))
+            }));
+        }
+        let (m, perts) = match obj.as_ref().unwrap() {
+            Ok(x) => x,
+            Err(e) => {
+                if g == 0 || ctx.only.is_some() {
+                    ctx.inconclusive(format!("message object {idx}: {e}"));
+                }
+                return;
+            }
+        };
+        describe_case(&format!("C02 message object {} group {g}", m.name));
+        ctx.seen("objects", format!("{}|{}", m.label, m.version));
+        let n = m.n();
+        for (pi, (pk, affected, p)) in perts.iter().enumerate() {
+            if group_of(*pk as u64, p, GROUPS) != g {
+                continue;
+            }
+            heartbeat("message object", &m.name, g, pi / GROUPS as usize);
+            let nb = p.op.apply(&m.pkts[*pk].body);
+            let bytes = m.splice(*pk, &nb);
+            let rep = || json!({"object": m.name, "packet": pk, "tag": m.pkts[*pk].tag, "region": p.detail, "op": p.op.json(), "message": hexs(&bytes)});
+            let o = eval_msg(ctx, m.label, &bytes, &m.keys, &m.key_of_idx, &rep);
+            let mut results: Vec<(&'static str, bool)> = vec![];
+            for i in affected {
+                results.push(("Message::verify_nested_explicit", o.explicit[*i]));
+                results.push(("Message::verify_nested", o.nested[*i]));
+                if *i == 0 {
+                    results.push(("Message::verify", o.verify0));
+                    results.push(("Message::verify_read", o.read0));
+                }
+            }
+            let lossy = || same_reser(m.pkts[*pk].tag, &m.pkts[*pk].body, &nb);
+            judge(ctx, m.label, &m.name, false, p.req, &p.detail, &results, &rep, &lossy);
+            ctx.cover(&(&m.name, pk, p.region, cover_pos(&p.op)));
+            ctx.tally(&format!("flips.msg.{}", p.region), 1);
+            if p.req != Req::Either {
+                ctx.seen("cells", format!("{}|{}|{}", m.label, m.version, p.region));
+            }
+        }
+        if g == 0 {
+            // key substitution: a key that signed nothing
+            let rep = || json!({"object": m.name, "message": hexs(&m.bytes), "key": "unrelated key of the same algorithm"});
+            let mut keys = m.keys.clone();
+            keys.push(m.other_key.clone());
+            let pair = vec![keys.len() - 1; n];
+            let o = eval_msg(ctx, m.label, &m.bytes, &keys, &pair, &rep);
+            let mut results = vec![("Message::verify", o.verify0), ("Message::verify_read", o.read0)];
+            for i in 0..n {
+                results.push(("Message::verify_nested_explicit", o.explicit[i]));
+                results.push(("Message::verify_nested", o.nested[i]));
+            }
+            judge(ctx, m.label, &m.name, false, Req::Must, "key-subst.same-alg", &results, &rep, &|| false);
+            ctx.seen("cells", format!("{}|{}|key-subst", m.label, m.version));
+            ctx.cover(&(&m.name, "key-subst"));
+            if idx % 3 == 0 {
+                ctx.sample(json!({"family": "message", "object": m.name, "perturbations": perts.len(), "message": hexs(&m.bytes)}));
+            }
+        }
+    }
+}
+
+/// Case group of a perturbation: derived from what is perturbed, not from its list index, so
+/// that shards whose copies of an object differ in a signature length (library-made
+/// certificate signatures carry the current time, ECDSA/EdDSA-legacy MPIs vary in length)
+/// still agree on who runs which perturbation.
+fn group_of(unit: u64, p: &Pert, n: u64) -> u64 {
+    let m = match &p.op {
+        Op::Xor(_, m) | Op::Set(_, m) => *m as u64,
+        Op::Del(_, k) => *k as u64,
+        Op::Ins(_, x) => x.len() as u64,
+        Op::Replace(_) => 0,
+    };
+    crate::core::hash64(&(unit, p.region, cover_pos(&p.op), m)) % n
+}
+
+fn cover_pos(op: &Op) -> u64 {
+    match op {
+        Op::Replace(x) => crate::core::hash64(x),
+        o => o.pos() as u64,
+    }
+}
+
+// ==========================================================================================
+// cleartext signed messages
+
+struct KObj {
+    name: String,
+    version: u8,
+    doc: String,
+    /// byte range of the dash-escaped text inside doc
+    text_range: (usize, usize),
+    /// start of the signature armor inside doc
+    armor_start: usize,
+    sig_body: Vec<u8>,
+    signed_form: String,
+    key: PublicKey,
+    other_key: PublicKey,
+}
+
+fn eval_csf(ctx: &mut Ctx, doc: &[u8], key: &PublicKey, rep: &dyn Fn() -> Value) -> Vec<(&'static str, bool)> {
+    let mut res = vec![];
+    ctx.eval();
+    let r = ctx.guarded("C02/cleartext/from_armor", || rep(), || {
+        CleartextSignedMessage::from_armor(doc).and_then(|(m, _)| m.verify(key).map(|_| ()))
+    });
+    res.push(("CleartextSignedMessage::verify", matches!(r, Some(Ok(())))));
+    if let Ok(s) = std::str::from_utf8(doc) {
+        ctx.eval();
+        let r = ctx.guarded("C02/cleartext/from_string", || rep(), || {
+            CleartextSignedMessage::from_string(s).and_then(|(m, _)| {
+                m.verify_many(|_, sig, data| sig.verify(key, data))
+            })
+        });
+        res.push(("CleartextSignedMessage::verify_many", matches!(r, Some(Ok(())))));
+    }
+    res
+}
+
+fn csf_doc(k: &KObj, sig_body: &[u8]) -> String {
+    let pkt = frame(2, sig_body, &LenForm::NewMin).expect("frame");
+    let mut d = k.doc[..k.armor_start].to_string();
+    d.push_str(&rfc::armor::armor_encode("PGP SIGNATURE", &[], &pkt, true, "\n"));
+    d
+}
+
+fn build_csf(spec: &Spec, hash: HashAlgorithm, text: &str, rng: &mut ChaCha8Rng) -> Result<KObj, String> {
+    let key = zoo::key(spec, 50);
+    let mut cfg = if spec.v6 {
+        SignatureConfig::v6(&mut *rng, SignatureType::Text, key.primary_key.algorithm(), hash).map_err(es("cfg"))?
+    } else {
+        SignatureConfig::v4(SignatureType::Text, key.primary_key.algorithm(), hash)
+    };
+    let (h, u) = sp_default(&key.primary_key)?;
+    cfg.hashed_subpackets = h;
+    cfg.unhashed_subpackets = u;
+    let m = CleartextSignedMessage::new(text, cfg, &key.primary_key, &Password::empty()).map_err(es("csf sign"))?;
+    let doc = m.to_armored_string(Default::default()).map_err(es("csf armor"))?;
+    let parsed = rfc::armor::csf_parse(&doc)?;
+    let needle = format!("\n\n{}\n-----BEGIN PGP SIGNATURE-----", parsed.escaped_text);
+    let at = doc.find(&needle).ok_or("cannot locate text in cleartext document")?;
+    let text_range = (at + 2, at + 2 + parsed.escaped_text.len());
+    let armor_start = text_range.1 + 1;
+    let pa = rfc::armor::armor_parse_strict(&doc[armor_start..])?;
+    let pk = deframe(&pa.data)?;
+    if pk.len() != 1 || pk[0].tag != 2 {
+        return Err("cleartext signature armor is not one signature packet".into());
+    }
+    Ok(KObj {
+        name: format!("cleartext|{}|{hash:?}", spec.name()),
+        version: if spec.v6 { 6 } else { 4 },
+        doc,
+        text_range,
+        armor_start,
+        sig_body: pk[0].body.clone(),
+        signed_form: rfc::armor::csf_signed_form(&parsed.text),
+        key: key.primary_key.public_key().clone(),
+        other_key: zoo::key(&Spec::simple(spec.v6, spec.primary.clone(), None), 51).primary_key.public_key().clone(),
+    })
+}
+
+fn run_kobj(ctx: &mut Ctx, idx: u64, spec: &Spec, hash: HashAlgorithm, text: &str) {
+    let mut obj: Option<Result<(KObj, Vec<Pert>), String>> = None;
+    for g in 0..GROUPS {
+        if !ctx.mine() {
+            continue;
+        }
+        if obj.is_none() {
+            let mut rng = ctx.rng("kobj", idx);
+            obj = Some(build_csf(spec, hash, text, &mut rng).and_then(|k| {
+                let p = sig_perts(&k.sig_body, &SigOpts { full_header: true, bytesubs: 0 }, &mut rng)?;
+                Ok((k, p))
+            }));
+        }
+        let (k, sperts) = match obj.as_ref().unwrap() {
+            Ok(x) => x,
+            Err(e) => {
+                if g == 0 || ctx.only.is_some() {
+                    ctx.inconclusive(format!("cleartext object {idx}: {e}"));
+                }
+                return;
+            }
+        };
+        describe_case(&format!("C02 cleartext object {} group {g}", k.name));
+        let base_doc = csf_doc(k, &k.sig_body);
+        let rep0 = || json!({"object": k.name, "doc": base_doc});
+        let b1 = eval_csf(ctx, k.doc.as_bytes(), &k.key, &rep0);
+        let b2 = eval_csf(ctx, base_doc.as_bytes(), &k.key, &rep0);
+        if b1.iter().chain(b2.iter()).any(|(_, ok)| !ok) {
+            ctx.inconclusive(format!("baseline cleartext does not verify: {b1:?} {b2:?}"));
+            return;
+        }
+        ctx.seen("objects", format!("cleartext|v{}", k.version));
+        let cell = |r: &str| format!("cleartext|v{}|{}", k.version, r);
+        // (a) text bits
+        let mut pi = 0u64;
+        for pos in k.text_range.0..k.text_range.1 {
+            for bit in 0..8 {
+                pi += 1;
+                if pi % GROUPS != g {
+                    continue;
+                }
+                let mut d = k.doc.clone().into_bytes();
+                d[pos] ^= 1 << bit;
+                let newb = d[pos];
+                // required to fail only when the reference reads a different signed text
+                let req = match std::str::from_utf8(&d).ok().and_then(|s| rfc::armor::csf_parse(s).ok()) {
+                    Some(p) if newb != b'\r' && !p.text.ends_with('\r') && rfc::armor::csf_signed_form(&p.text) != k.signed_form => Req::Must,
+                    _ => Req::Either,
+                };
+                let rep = || json!({"object": k.name, "region": "content", "at": pos, "bit": bit, "doc": hexs(&d)});
+                let r = eval_csf(ctx, &d, &k.key, &rep);
+                judge(ctx, "cleartext", &k.name, false, req, "content", &r, &rep, &|| false);
+                ctx.cover(&(&k.name, "content", pos));
+                ctx.tally("flips.csf.content", 1);
+                if req == Req::Must {
+                    ctx.seen("cells", cell("content"));
+                }
+            }
+        }
+        // (b) line insertions / removals in the text
+        if g == 0 {
+            let (s, e) = k.text_range;
+            let variants: Vec<(&str, String)> = vec![
+                ("content-extend", format!("{}{}\nextra line{}", &k.doc[..e], "", &k.doc[e..])),
+                ("content-extend", format!("{}x{}", &k.doc[..s], &k.doc[s..])),
+                ("content-trunc", format!("{}{}", &k.doc[..e - 1], &k.doc[e..])),
+                ("content-trunc", format!("{}{}", &k.doc[..s], &k.doc[s + 1..])),
+            ];
+            for (region, d) in variants {
+                let req = match rfc::armor::csf_parse(&d) {
+                    Ok(p) if !p.text.ends_with('\r') && rfc::armor::csf_signed_form(&p.text) != k.signed_form => Req::Must,
+                    _ => Req::Either,
+                };
+                let rep = || json!({"object": k.name, "region": region, "doc": d});
+                let r = eval_csf(ctx, d.as_bytes(), &k.key, &rep);
+                judge(ctx, "cleartext", &k.name, false, req, region, &r, &rep, &|| false);
+                ctx.cover(&(&k.name, region, crate::core::hash64(&d)));
+                if req == Req::Must {
+                    ctx.seen("cells", cell(region));
+                }
+            }
+            // key substitution
+            let rep = || json!({"object": k.name, "region": "key-subst", "doc": k.doc});
+            let r = eval_csf(ctx, k.doc.as_bytes(), &k.other_key, &rep);
+            judge(ctx, "cleartext", &k.name, false, Req::Must, "key-subst.same-alg", &r, &rep, &|| false);
+            ctx.seen("cells", cell("key-subst"));
+            ctx.cover(&(&k.name, "key-subst"));
+            ctx.sample(json!({"family": "cleartext", "object": k.name, "doc": k.doc}));
+        }
+        // (c) the armored signature
+        for (i, p) in sperts.iter().enumerate() {
+            if group_of(2, p, GROUPS) != g {
+                continue;
+            }
+            heartbeat("cleartext object", &k.name, g, i / GROUPS as usize);
+            let d = csf_doc(k, &p.op.apply(&k.sig_body));
+            let rep = || json!({"object": k.name, "region": p.detail, "op": p.op.json(), "doc": d});
+            let r = eval_csf(ctx, d.as_bytes(), &k.key, &rep);
+            let nb = p.op.apply(&k.sig_body);
+            let lossy = || same_reser(2, &k.sig_body, &nb);
+            judge(ctx, "cleartext", &k.name, false, p.req, &p.detail, &r, &rep, &lossy);
+            ctx.cover(&(&k.name, p.region, cover_pos(&p.op)));
+            ctx.tally(&format!("flips.csf.{}", p.region), 1);
+            if p.req == Req::Must {
+                ctx.seen("cells", cell(p.region));
+            }
+        }
+    }
+}
+
+// ==========================================================================================
+// whole certificates: perturb the serialised TPK / TSK, re-parse, verify_bindings
+//
+// The key parser is lenient: components without a usable signature are dropped, unsupported
+// packets end the certificate silently. The requirement is therefore "the perturbed component
+// is no longer certified": verify_bindings returns Err, OR the parse fails, OR the perturbed
+// component / signature is absent from the parsed certificate (component lists or the
+// signature count of the component shrank). Only ONE packet is touched per case, so list
+// positions of the other components are unchanged.
+
+#[derive(Clone, Copy, PartialEq, Eq, Debug)]
+enum CK {
+    Primary,
+    Uid(usize),
+    Attr(usize),
+    SubPub(usize),
+    SubSec(usize),
+}
+
+#[derive(Clone, Debug)]
+struct Comp {
+    kind: CK,
+    pkt: usize,
+    sigs: Vec<usize>,
+    /// a binding of this subkey carries the sign flag
+    sign: bool,
+}
+
+#[derive(Clone, Debug, PartialEq, Eq, Default)]
+struct CSum {
+    direct: usize,
+    users: Vec<usize>,
+    attrs: Vec<usize>,
+    subs_pub: Vec<usize>,
+    subs_sec: Vec<usize>,
+}
+
+impl CSum {
+    fn total(&self) -> usize {
+        self.direct
+            + self.users.iter().sum::<usize>()
+            + self.attrs.iter().sum::<usize>()
+            + self.subs_pub.iter().sum::<usize>()
+            + self.subs_sec.iter().sum::<usize>()
+    }
+    fn count(&self, k: CK) -> Option<usize> {
+        match k {
+            CK::Primary => Some(self.direct),
+            CK::Uid(i) => self.users.get(i).copied(),
+            CK::Attr(i) => self.attrs.get(i).copied(),
+            CK::SubPub(i) => self.subs_pub.get(i).copied(),
+            CK::SubSec(i) => self.subs_sec.get(i).copied(),
+        }
+    }
+    fn same_shape(&self, o: &CSum) -> bool {
+        self.users.len() == o.users.len()
+            && self.attrs.len() == o.attrs.len()
+            && self.subs_pub.len() == o.subs_pub.len()
+            && self.subs_sec.len() == o.subs_sec.len()
+    }
+}
+
+struct CObj {
+    name: String,
+    secret: bool,
+    version: u8,
+    bytes: Vec<u8>,
+    pkts: Vec<RawPacket>,
+    comps: Vec<Comp>,
+    base: CSum,
+}
+
+fn sum_details(d: &pgp::composed::SignedKeyDetails) -> CSum {
+    CSum {
+        direct: d.direct_signatures.len() + d.revocation_signatures.len(),
+        users: d.users.iter().map(|u| u.signatures.len()).collect(),
+        attrs: d.user_attributes.iter().map(|u| u.signatures.len()).collect(),
+        ..Default::default()
+    }
+}
+
+fn cert_reser(secret: bool, bytes: &[u8]) -> Option<Vec<u8>> {
+    crate::core::guard(|| {
+        if secret {
+            SignedSecretKey::from_bytes(bytes).ok()?.to_bytes().ok()
+        } else {
+            SignedPublicKey::from_bytes(bytes).ok()?.to_bytes().ok()
+        }
+    })
+    .ok()
+    .flatten()
+}
+
+/// None: parse error. Some((verify_bindings ok, shape))
+fn eval_cert(ctx: &mut Ctx, secret: bool, bytes: &[u8], rep: &dyn Fn() -> Value) -> Option<(bool, CSum)> {
+    ctx.eval();
+    let label = if secret { "certificate-tsk" } else { "certificate-tpk" };
+    ctx.guarded(&format!("C02/{label}/verify_bindings"), || rep(), || {
+        if secret {
+            let k = SignedSecretKey::from_bytes(bytes).ok()?;
+            let mut s = sum_details(&k.details);
+            s.subs_pub = k.public_subkeys.iter().map(|x| x.signatures.len()).collect();
+            s.subs_sec = k.secret_subkeys.iter().map(|x| x.signatures.len()).collect();
+            Some((k.verify_bindings().is_ok(), s))
+        } else {
+            let k = SignedPublicKey::from_bytes(bytes).ok()?;
+            let mut s = sum_details(&k.details);
+            s.subs_pub = k.public_subkeys.iter().map(|x| x.signatures.len()).collect();
+            Some((k.verify_bindings().is_ok(), s))
+        }
+    })
+    .flatten()
+}
+
+/// A zoo certificate enriched with a user attribute, revocations (0x20, 0x28, 0x30), a v4 direct
+/// key signature and a signing-subkey binding whose back signature sits in the unhashed area.
+fn build_cert(ctx: &mut Ctx, spec: &Spec, kidx: u64, secret: bool, enrich: bool, rng: &mut ChaCha8Rng) -> Result<CObj, String> {
+    let mut key = zoo::key(spec, kidx);
+    let pw = Password::empty();
+    let prim = key.primary_key.public_key().clone();
+    if enrich {
+        if let Some(j) = sign_sub_index(&key) {
+            let s = remake_sign_binding(rng, &key, j)?;
+            key.secret_subkeys[j].signatures = vec![s];
+        }
+        if let Some(j) = enc_sub_index(&key) {
+            let s = cfg_for(rng, &key.primary_key, SignatureType::SubkeyRevocation, vec![])?
+                .sign_subkey_binding(&key.primary_key, &prim, &pw, key.secret_subkeys[j].key.public_key())
+                .map_err(es("sign 0x28"))?;
+            key.secret_subkeys[j].signatures.push(s);
+        }
+        let rev = cfg_for(rng, &key.primary_key, SignatureType::KeyRevocation, vec![])?
+            .sign_key(&key.primary_key, &pw, &prim)
+            .map_err(es("sign 0x20"))?;
+        key.details.revocation_signatures.push(rev);
+        if key.details.direct_signatures.is_empty() {
+            let d = cfg_for(rng, &key.primary_key, SignatureType::Key, vec![])?
+                .sign_key(&key.primary_key, &pw, &prim)
+                .map_err(es("sign 0x1f"))?;
+            key.details.direct_signatures.push(d);
+        }
+        if let Some(u) = key.details.users.last_mut() {
+            let r = cfg_for(rng, &key.primary_key, SignatureType::CertRevocation, vec![])?
+                .sign_certification(&key.primary_key, &prim, &pw, Tag::UserId, &u.id)
+                .map_err(es("sign 0x30"))?;
+            u.signatures.push(r);
+        }
+        let at = UserAttribute::new_image(Bytes::from_static(b"\xff\xd8\xff\xe0jpeg?\xff\xd9")).map_err(es("attr"))?;
+        let s = cfg_for(rng, &key.primary_key, SignatureType::CertPositive, vec![])?
+            .sign_certification(&key.primary_key, &prim, &pw, Tag::UserAttribute, &at)
+            .map_err(es("sign attr"))?;
+        key.details.user_attributes.push(SignedUserAttribute::new(at, vec![s]));
+    }
+    let bytes = if secret { key.to_bytes() } else { key.to_public_key().to_bytes() }.map_err(es("ser"))?;
+    let pkts = deframe(&bytes)?;
+    // reference structure of the certificate
+    let mut comps: Vec<Comp> = vec![];
+    let (mut nu, mut na, mut np, mut ns) = (0, 0, 0, 0);
+    for (i, p) in pkts.iter().enumerate() {
+        if !p.partial_chunks.is_empty() || p.indeterminate {
+            return Err("certificate uses partial framing".into());
+        }
+        let kind = match p.tag {
+            6 | 5 if i == 0 => Some(CK::Primary),
+            13 => { nu += 1; Some(CK::Uid(nu - 1)) }
+            17 => { na += 1; Some(CK::Attr(na - 1)) }
+            14 => { np += 1; Some(CK::SubPub(np - 1)) }
+            7 => { ns += 1; Some(CK::SubSec(ns - 1)) }
+            2 => None,
+            t => return Err(format!("unexpected packet tag {t} in certificate")),
+        };
+        match kind {
+            Some(k) => comps.push(Comp { kind: k, pkt: i, sigs: vec![], sign: false }),
+            None => {
+                let c = comps.last_mut().ok_or("signature before key")?;
+                c.sigs.push(i);
+                if let Ok(rs) = parse_sig(&p.body) {
+                    if let Ok(sps) = parse_subpackets(&rs.hashed) {
+                        if rs.typ == 0x18 && sps.iter().any(|s| s.typ == 27 && s.body.first().is_some_and(|b| b & 2 != 0)) {
+                            c.sign = true;
+                        }
+                    }
+                }
+            }
+        }
+    }
+    // the library lists user ids before attributes; the serialisation follows that order, so
+    // the reference indices are list positions
+    let rep = || json!({"cert": hexs(&bytes)});
+    let Some((ok, base)) = eval_cert(ctx, secret, &bytes, &rep) else {
+        return Err("baseline certificate does not parse".into());
+    };
+    if !ok {
+        return Err("baseline certificate does not verify".into());
+    }
+    for c in &comps {
+        if base.count(c.kind) != Some(c.sigs.len()) {
+            return Err(format!("library and reference disagree on the signatures of {:?}: {:?} vs {}", c.kind, base.count(c.kind), c.sigs.len()));
+        }
+    }
+    Ok(CObj {
+        name: format!("{}|{}|{}", if secret { "tsk" } else { "tpk" }, spec.name(), if enrich { "enriched" } else { "plain" }),
+        secret,
+        version: if spec.v6 { 6 } else { 4 },
+        bytes,
+        pkts,
+        comps,
+        base,
+    })
+}
+
+impl CObj {
+    fn splice(&self, k: usize, body: &[u8]) -> Vec<u8> {
+        let p = &self.pkts[k];
+        let mut out = self.bytes[..p.offset].to_vec();
+        out.extend(frame(p.tag, body, &LenForm::NewMin).expect("frame"));
+        out.extend_from_slice(&self.bytes[p.offset + p.encoded_len..]);
+        out
+    }
+}
+
+/// (component index, Some(sig slot) when a signature packet is perturbed, packet, pert)
+type CPert = (usize, Option<usize>, usize, Pert);
+
+fn cert_perts(c: &CObj, bytesubs: usize, rng: &mut ChaCha8Rng) -> Result<Vec<CPert>, String> {
+    let mut out: Vec<CPert> = vec![];
+    for (ci, comp) in c.comps.iter().enumerate() {
+        let body = &c.pkts[comp.pkt].body;
+        match comp.kind {
+            CK::Primary | CK::SubPub(_) | CK::SubSec(_) => {
+                let (_, used) = RefPub::parse_prefix(body).ok_or("reference cannot parse key packet")?;
+                for p in key_perts(&body[..used], true, bytesubs, rng)? {
+                    out.push((ci, None, comp.pkt, p));
+                }
+                // secret part: not signed
+                let mut v = vec![];
+                let n = (body.len() - used).min(24);
+                add_flips(&mut v, "secret-part", Req::Either, used, n, &|_| "secret-part".into());
+                out.extend(v.into_iter().map(|p| (ci, None, comp.pkt, p)));
+            }
+            CK::Uid(_) | CK::Attr(_) => {
+                let mut v = vec![];
+                let ad = attr_detail(body);
+                let is_attr = matches!(comp.kind, CK::Attr(_));
+                add_flips(&mut v, "id", Req::Must, 0, body.len(), &|i| if is_attr { ad[i].clone() } else { "id".into() });
+                if matches!(comp.kind, CK::Uid(_)) {
+                    v.push(Pert { region: "id-trunc", detail: "id-trunc".into(), req: Req::Must, op: Op::Del(body.len() - 1, 1) });
+                    v.push(Pert { region: "id-extend", detail: "id-extend".into(), req: Req::Must, op: Op::Ins(body.len(), vec![b'.']) });
+                }
+                out.extend(v.into_iter().map(|p| (ci, None, comp.pkt, p)));
+            }
+        }
+        for (si, pk) in comp.sigs.iter().enumerate() {
+            let so = SigOpts { full_header: true, bytesubs };
+            for mut p in sig_perts(&c.pkts[*pk].body, &so, rng)? {
+                if p.req == Req::Backsig {
+                    p.req = if comp.sign { Req::Must } else { Req::Either };
+                }
+                out.push((ci, Some(si), *pk, p));
+            }
+        }
+    }
+    // transplants: the first signature of one component put in place of the first signature of
+    // another one (a signature certifies only the component it was made over)
+    for a in 0..c.comps.len() {
+        for b in 0..c.comps.len() {
+            if a == b || c.comps[a].sigs.is_empty() || c.comps[b].sigs.is_empty() {
+                continue;
+            }
+            let from = &c.pkts[c.comps[b].sigs[0]].body;
+            out.push((a, Some(0), c.comps[a].sigs[0], Pert {
+                region: "transplant",
+                detail: "transplant".into(),
+                req: Req::Must,
+                op: Op::Replace(from.clone()),
+            }));
+        }
+    }
+    // packet framing octets
+    for (ci, comp) in c.comps.iter().enumerate() {
+        for pk in std::iter::once(&comp.pkt).chain(comp.sigs.iter()) {
+            let p = &c.pkts[*pk];
+            let h = p.encoded_len - p.body.len();
+            for i in 0..h {
+                for bit in 0..8 {
+                    out.push((ci, None, usize::MAX, Pert {
+                        region: "framing",
+                        detail: "framing".into(),
+                        req: Req::Either,
+                        op: Op::Xor(p.offset + i, 1 << bit),
+                    }));
+                }
+            }
+        }
+    }
+    Ok(out)
+}
+
+const CGROUPS: u64 = 32;
+
+fn run_cobj(ctx: &mut Ctx, idx: u64, spec: &Spec, kidx: u64, secret: bool, enrich: bool) {
+    let mut obj: Option<Result<(CObj, Vec<CPert>), String>> = None;
+    let bytesubs = if is_slow_alg(&spec.primary) { 0 } else { ctx.qt(0usize, 2usize) };
+    let label = if secret { "certificate-tsk" } else { "certificate-tpk" };
+    let entry = if secret { "SignedSecretKey::verify_bindings" } else { "SignedPublicKey::verify_bindings" };
+    for g in 0..CGROUPS {
+        if !ctx.mine() {
+            continue;
+        }
+        if obj.is_none() {
+            let mut rng = ctx.rng("cobj", idx);
+            obj = Some(build_cert(ctx, spec, kidx, secret, enrich, &mut rng).and_then(|c| {
+                let p = cert_perts(&c, bytesubs, &mut rng)?;
+                Ok((c, p))
+            }));
+        }
+        let (c, perts) = match obj.as_ref().unwrap() {
+            Ok(x) => x,
+            Err(e) => {
+                if g == 0 || ctx.only.is_some() {
+                    ctx.inconclusive(format!("certificate object {idx}: {e}"));
+                }
+                return;
+            }
+        };
+        describe_case(&format!("C02 certificate object {} group {g}", c.name));
+        ctx.seen("objects", format!("{label}|v{}", c.version));
+        for (pi, (ci, slot, pk, p)) in perts.iter().enumerate() {
+            if group_of(*pk as u64, p, CGROUPS) != g {
+                continue;
+            }
+            heartbeat("certificate object", &c.name, g, pi / CGROUPS as usize);
+            let comp = &c.comps[*ci];
+            let bytes = if *pk == usize::MAX { p.op.apply(&c.bytes) } else { c.splice(*pk, &p.op.apply(&c.pkts[*pk].body)) };
+            let rep = || json!({"object": c.name, "component": format!("{:?}", comp.kind), "signature": slot, "region": p.detail, "op": p.op.json(), "cert": hexs(&bytes)});
+            let r = eval_cert(ctx, c.secret, &bytes, &rep);
+            let what = match (comp.kind, slot) {
+                (_, Some(_)) => "sig",
+                (CK::Primary, None) => "primary-key",
+                (CK::Uid(_), None) => "uid",
+                (CK::Attr(_), None) => "attr",
+                (_, None) => "subkey",
+            };
+            let detail = if what == "sig" { p.detail.clone() } else { format!("{what}:{}", p.detail) };
+            // still certified? verify_bindings Ok and the perturbed thing is present
+            let accepted = match &r {
+                None => false,
+                Some((false, _)) => false,
+                Some((true, s)) => match (comp.kind, slot) {
+                    (CK::Primary, None) => s.total() > 0,
+                    (k, None) => s.same_shape(&c.base) && s.count(k) == c.base.count(k),
+                    (k, Some(_)) => s.same_shape(&c.base) && s.count(k) == c.base.count(k),
+                },
+            };
+            match r {
+                None => ctx.tally("cert.outcome.parse-error", 1),
+                Some((false, _)) => ctx.tally("cert.outcome.verify-error", 1),
+                Some((true, _)) if !accepted => ctx.tally("cert.outcome.component-dropped", 1),
+                _ => ctx.tally("cert.outcome.ok", 1),
+            }
+            let lossy = || cert_reser(c.secret, &bytes).is_some_and(|x| Some(x) == cert_reser(c.secret, &c.bytes));
+            judge(ctx, label, &c.name, true, p.req, &detail, &[(entry, accepted)], &rep, &lossy);
+            ctx.cover(&(&c.name, pk, p.region, cover_pos(&p.op)));
+            ctx.tally(&format!("flips.cert.{what}.{}", p.region), 1);
+            if p.req != Req::Either {
+                ctx.seen("cells", format!("{label}|v{}|{what}.{}", c.version, p.region));
+            }
+        }
+        if g == 0 && idx % 2 == 0 {
+            ctx.sample(json!({"family": "certificate", "object": c.name, "perturbations": perts.len(), "components": c.comps.iter().map(|x| format!("{:?}+{}sigs", x.kind, x.sigs.len())).collect::<Vec<_>>(), "cert": hexs(&c.bytes)}));
+        }
+    }
+}
+
+// ==========================================================================================
+// workload
+
+fn enc_for(a: &Alg) -> Alg {
+    match a {
+        Alg::Ed25519Legacy => Alg::EcdhCv25519,
+        Alg::Ed25519 => Alg::X25519,
+        Alg::Ed448 => Alg::X448,
+        Alg::EcdsaP256 | Alg::EcdsaK256 => Alg::EcdhP256,
+        Alg::EcdsaP384 => Alg::EcdhP384,
+        Alg::EcdsaP521 => Alg::EcdhP521,
+        _ => Alg::Rsa2048,
+    }
+}
+
+/// combinations the library documents as rejected (hash too weak for the key)
+fn hash_ok(a: &Alg, h: HashAlgorithm) -> bool {
+    let bits = match h {
+        HashAlgorithm::Sha224 => 224,
+        HashAlgorithm::Sha256 | HashAlgorithm::Sha3_256 => 256,
+        HashAlgorithm::Sha384 => 384,
+        _ => 512,
+    };
+    let min = match a {
+        Alg::Ed448 | Alg::EcdsaP521 => 512,
+        Alg::EcdsaP384 => 384,
+        Alg::Rsa2048 | Alg::Dsa2048 => 0,
+        _ => 256,
+    };
+    bits >= min
+}
+
+fn data_objects(quick: bool) -> Vec<DataSpec> {
+    use HashAlgorithm::{Sha224, Sha256, Sha384, Sha3_256, Sha3_512, Sha512};
+    let d = |v6: bool, a: Alg, text: bool, hash: HashAlgorithm, sp: SpMode, c: usize| {
+        let spec = if a == Alg::Rsa2048 { Spec::simple(v6, a, Some(Alg::Rsa2048)) } else { Spec::simple(v6, a, None) };
+        DataSpec { spec, kidx: 0, text, hash, sp, content: data_contents(c) }
+    };
+    let mut v = vec![
+        d(false, Alg::Ed25519Legacy, false, Sha256, SpMode::Default, 0),
+        d(false, Alg::Ed25519Legacy, true, Sha512, SpMode::Rich, 1),
+        d(true, Alg::Ed25519, false, Sha512, SpMode::Default, 0),
+        d(true, Alg::Ed25519, true, Sha256, SpMode::Rich, 1),
+        d(true, Alg::Ed448, true, Sha512, SpMode::Default, 2),
+        d(false, Alg::EcdsaP256, false, Sha256, SpMode::Bare, 3),
+        d(true, Alg::EcdsaP256, true, Sha3_256, SpMode::Default, 1),
+        d(true, Alg::EcdsaP384, false, Sha384, SpMode::Default, 0),
+        d(false, Alg::EcdsaP521, true, Sha512, SpMode::Default, 2),
+        d(false, Alg::EcdsaK256, false, Sha256, SpMode::Default, 3),
+        d(false, Alg::Rsa2048, true, Sha256, SpMode::Rich, 1),
+        d(true, Alg::Rsa2048, false, Sha512, SpMode::Bare, 0),
+        d(false, Alg::Dsa2048, false, Sha256, SpMode::Default, 3),
+        d(true, Alg::Ed25519, false, Sha3_256, SpMode::Bare, 3),
+        d(false, Alg::Rsa2048, false, Sha224, SpMode::Default, 0),
+        d(false, Alg::Ed25519Legacy, true, Sha384, SpMode::Bare, 2),
+    ];
+    if !quick {
+        v.push(d(false, Alg::Ed448, false, Sha3_512, SpMode::Bare, 3));
+        let hashes = [Sha256, Sha384, Sha512, Sha224, Sha3_256, Sha3_512];
+        let mut i = 0usize;
+        for spec in zoo::signer_specs(true) {
+            for (hi, h) in hashes.iter().enumerate() {
+                // every (key, hash) pair once; text/binary, subpacket mode, content rotate
+                if (spec.primary.is_slow() && hi % 2 == 1) || !hash_ok(&spec.primary, *h) {
+                    continue;
+                }
+                i += 1;
+                let sp = [SpMode::Default, SpMode::Bare, SpMode::Rich][i % 3];
+                let mut ds = d(spec.v6, spec.primary.clone(), i % 2 == 0, *h, sp, i / 2);
+                ds.kidx = if spec.primary.is_slow() { 0 } else { 1 + (i % 2) as u64 };
+                v.push(ds);
+            }
+        }
+    }
+    v
+}
+
+fn certsig_objects(quick: bool) -> Vec<(Spec, u64, CertSig)> {
+    use CertSig::*;
+    let a = cert_spec(false, Alg::Ed25519Legacy, Alg::EcdhCv25519, Some(Alg::Ed25519Legacy));
+    let b = cert_spec(true, Alg::Ed25519, Alg::X25519, Some(Alg::Ed25519));
+    let c = cert_spec(false, Alg::EcdsaP256, Alg::EcdhP256, Some(Alg::EcdsaP256));
+    let d = cert_spec(true, Alg::Ed448, Alg::X448, Some(Alg::Ed448));
+    let e = Spec::simple(false, Alg::Rsa2048, Some(Alg::Rsa2048));
+    let f = Spec::simple(true, Alg::Rsa2048, Some(Alg::Rsa2048));
+    let all_a = [UidPositive, UidMade(0x10), UidMade(0x30), UidThird(0x12), Attr, SubEnc, SubSign, SubSignUnhashed, Back, SubRevocation, Direct, DirectThird, KeyRevocation, KeyRevocationThird];
+    let all_b = [UidPositive, UidMade(0x11), UidMade(0x12), UidThird(0x10), UidThird(0x30), Attr, SubEnc, SubSign, SubSignUnhashed, Back, SubRevocation, Direct, DirectThird, KeyRevocation];
+    let mut v: Vec<(Spec, u64, CertSig)> = vec![];
+    v.extend(all_a.iter().map(|w| (a.clone(), 0, *w)));
+    v.extend(all_b.iter().map(|w| (b.clone(), 0, *w)));
+    v.extend([UidPositive, SubEnc, SubSignUnhashed, Back, KeyRevocation].iter().map(|w| (c.clone(), 0, *w)));
+    v.extend([UidPositive, Back].iter().map(|w| (d.clone(), 0, *w)));
+    if !quick {
+        v.extend([SubEnc, Direct, SubSignUnhashed, KeyRevocation].iter().map(|w| (d.clone(), 0, *w)));
+    }
+    v.extend([UidPositive, SubEnc, Direct].iter().map(|w| (e.clone(), 0, *w)));
+    v.extend([UidPositive, SubEnc, Direct].iter().map(|w| (f.clone(), 0, *w)));
+    if !quick {
+        for alg in Alg::signers() {
+            if alg.is_slow() {
+                continue;
+            }
+            for v6 in [false, true] {
+                if (v6 && alg.v4_only()) || (!v6 && alg == Alg::Ed25519 && false) {
+                    continue;
+                }
+                let enc = enc_for(&alg);
+                if (v6 && enc.v4_only()) || (v6 && alg == Alg::Ed25519Legacy) {
+                    continue;
+                }
+                let s = cert_spec(v6, alg.clone(), enc, Some(alg.clone()));
+                if is_slow_alg(&alg) {
+                    // expensive public-key operations: the kinds that differ in what is hashed
+                    for (i, w) in [UidPositive, UidThird(0x11), SubSignUnhashed, Back, KeyRevocation].iter().enumerate() {
+                        v.push((s.clone(), 1 + (i % 2) as u64, *w));
+                    }
+                    continue;
+                }
+                for (i, w) in all_a.iter().chain(all_b[1..5].iter()).enumerate() {
+                    v.push((s.clone(), 1 + (i % 2) as u64, *w));
+                }
+            }
+        }
+    }
+    v
+}
+
+fn msg_objects(quick: bool) -> Vec<MsgSpec> {
+    use HashAlgorithm::{Sha224, Sha256, Sha384, Sha3_256, Sha3_512, Sha512};
+    let s = |v6: bool, a: Alg| if a == Alg::Rsa2048 { Spec::simple(v6, a, Some(Alg::Rsa2048)) } else { Spec::simple(v6, a, None) };
+    let m = |signers: Vec<(Spec, HashAlgorithm)>, text: bool, prefixed: bool, c: &[u8]| MsgSpec { signers, text, prefixed, content: c.to_vec() };
+    let nolf = b"no line endings in here: 0123456789";
+    let lf = b"first line\nsecond line\r\nthird";
+    let mut v = vec![
+        m(vec![(s(false, Alg::Ed25519Legacy), Sha256)], false, false, nolf),
+        m(vec![(s(true, Alg::Ed25519), Sha512)], false, false, nolf),
+        m(vec![(s(false, Alg::Ed25519Legacy), Sha256), (s(false, Alg::EcdsaP256), Sha512)], true, false, lf),
+        m(vec![(s(false, Alg::Ed25519Legacy), Sha512), (s(true, Alg::Ed25519), Sha256), (s(false, Alg::EcdsaP256), Sha256)], false, false, nolf),
+        m(vec![(s(true, Alg::Ed25519), Sha512), (s(true, Alg::EcdsaP256), Sha3_512)], true, false, lf),
+        m(vec![(s(false, Alg::Ed25519Legacy), Sha256)], true, true, lf),
+        m(vec![(s(true, Alg::Ed25519), Sha256), (s(false, Alg::Rsa2048), Sha256)], false, true, nolf),
+        m(vec![(s(false, Alg::Rsa2048), Sha384)], true, false, lf),
+    ];
+    if !quick {
+        let hashes = [Sha256, Sha384, Sha512, Sha224, Sha3_256, Sha3_512];
+        let specs = zoo::signer_specs(true);
+        for (i, sp) in specs.iter().enumerate() {
+            let h = if hash_ok(&sp.primary, hashes[i % hashes.len()]) { hashes[i % hashes.len()] } else { Sha512 };
+            v.push(m(vec![(sp.clone(), h)], i % 2 == 0, false, if i % 2 == 0 { lf } else { nolf }));
+            let o = &specs[(i + 5) % specs.len()];
+            v.push(m(vec![(sp.clone(), h), (o.clone(), if hash_ok(&o.primary, hashes[(i + 1) % 6]) { hashes[(i + 1) % 6] } else { Sha3_512 })], i % 2 == 1, i % 3 == 0, if i % 3 == 1 { lf } else { nolf }));
+        }
+    }
+    v
+}
+
+const CSF_TEXT: &str = "Hello cleartext\n- dash line\n-second dash\ntrailing space \n\ttabbed\t\nlast line";
 
 pub fn run(ctx: &mut Ctx) {
-    ctx.inconclusive("monitor not built yet");
+    let quick = ctx.quick();
+    let t_run = crate::core::thread_cpu_s();
+    let mut idx = 0u64;
+
+    // ---- family 1: packet-level objects (data signatures)
+    for ds in data_objects(quick) {
+        idx += 1;
+        let t0 = crate::core::thread_cpu_s();
+        run_pobj(ctx, idx, &|rng| build_data(&ds, rng));
+        ctx.tally("cpu_ms.data-signatures", ((crate::core::thread_cpu_s() - t0) * 1000.0) as u64);
+    }
+    // ---- family 2: packet-level certificate-forming signatures
+    for (spec, kidx, which) in certsig_objects(quick) {
+        idx += 1;
+        let t0 = crate::core::thread_cpu_s();
+        run_pobj(ctx, idx, &|rng| build_certsig(&spec, kidx, which, rng));
+        ctx.tally("cpu_ms.certificate-forming-signatures", ((crate::core::thread_cpu_s() - t0) * 1000.0) as u64);
+    }
+    // ---- family 3: messages
+    for ms in msg_objects(quick) {
+        idx += 1;
+        let t0 = crate::core::thread_cpu_s();
+        run_mobj(ctx, idx, &ms);
+        ctx.tally("cpu_ms.messages", ((crate::core::thread_cpu_s() - t0) * 1000.0) as u64);
+    }
+    // ---- family 4: cleartext
+    let mut csf = vec![
+        (Spec::simple(false, Alg::Ed25519Legacy, None), HashAlgorithm::Sha256),
+        (Spec::simple(true, Alg::Ed25519, None), HashAlgorithm::Sha512),
+        (Spec::simple(false, Alg::EcdsaP256, None), HashAlgorithm::Sha256),
+    ];
+    if !quick {
+        csf.push((Spec::simple(true, Alg::Ed448, None), HashAlgorithm::Sha3_512));
+        csf.push((Spec::simple(false, Alg::Rsa2048, None), HashAlgorithm::Sha384));
+        csf.push((Spec::simple(true, Alg::EcdsaP384, None), HashAlgorithm::Sha384));
+        csf.push((Spec::simple(false, Alg::EcdsaK256, None), HashAlgorithm::Sha512));
+    }
+    for (spec, h) in csf {
+        idx += 1;
+        let t0 = crate::core::thread_cpu_s();
+        run_kobj(ctx, idx, &spec, h, CSF_TEXT);
+        ctx.tally("cpu_ms.cleartext", ((crate::core::thread_cpu_s() - t0) * 1000.0) as u64);
+    }
+    // ---- family 5: whole certificates
+    let a = cert_spec(false, Alg::Ed25519Legacy, Alg::EcdhCv25519, Some(Alg::Ed25519Legacy));
+    let b = cert_spec(true, Alg::Ed25519, Alg::X25519, Some(Alg::Ed25519));
+    let c = cert_spec(false, Alg::EcdsaP256, Alg::EcdhP256, Some(Alg::EcdsaP256));
+    let d = cert_spec(true, Alg::Ed448, Alg::X448, None);
+    let e = Spec::simple(false, Alg::Rsa2048, Some(Alg::Rsa2048));
+    let mut certs: Vec<(Spec, u64, bool, bool)> = vec![
+        (a.clone(), 0, false, true),
+        (b.clone(), 0, false, true),
+        (a.clone(), 0, true, true),
+        (b.clone(), 0, true, true),
+        (c.clone(), 0, false, false),
+        (c.clone(), 0, true, true),
+        (e.clone(), 0, false, false),
+    ];
+    let _ = &d;
+    if !quick {
+        for alg in Alg::signers() {
+            if alg.is_slow() {
+                continue;
+            }
+            for v6 in [false, true] {
+                let enc = enc_for(&alg);
+                if (v6 && (alg.v4_only() || enc.v4_only())) || (v6 && alg == Alg::Ed25519Legacy) {
+                    continue;
+                }
+                let s = cert_spec(v6, alg.clone(), enc, Some(alg.clone()));
+                if is_slow_alg(&alg) {
+                    // one certificate per slow algorithm (v6 public, v4 secret alternate)
+                    if v6 {
+                        certs.push((s, 1, alg == Alg::EcdsaP384, true));
+                    }
+                    continue;
+                }
+                certs.push((s.clone(), 1, false, true));
+                certs.push((s, 2, true, true));
+            }
+        }
+        certs.push((Spec::simple(true, Alg::Rsa2048, Some(Alg::Rsa2048)), 0, false, true));
+        certs.push((e, 0, true, true));
+        certs.push((Spec::simple(false, Alg::Dsa2048, None), 0, false, true));
+    }
+    for (spec, kidx, secret, enrich) in certs {
+        idx += 1;
+        let t0 = crate::core::thread_cpu_s();
+        run_cobj(ctx, idx, &spec, kidx, secret, enrich);
+        ctx.tally("cpu_ms.certificates", ((crate::core::thread_cpu_s() - t0) * 1000.0) as u64);
+    }
+    ctx.extra.insert("objects_total".into(), json!(idx));
+    let sh = ctx.shard;
+    ctx.tally(&format!("shard_cpu_ms.{sh:02}"), ((crate::core::thread_cpu_s() - t_run) * 1000.0) as u64);
 }
